@@ -1,6 +1,8 @@
-import Firefly.Proof.AmlFlatNs
+import Firefly.Proof.AmlStrDecl
 /-!
-C11, the nested fragment — `Device(NAME){…}` around `Name(NAME, integer)` declarations, to any depth: the first pass.
+C11, the nested fragment — `Device(NAME){…}` / `ThermalZone(NAME){…}` / `Processor(NAME, id, addr, len){…}` /
+`PowerResource(NAME, level, order){…}` around `Name(NAME, integer | string)`, `Event(NAME)`, `Mutex(NAME, sync)` declarations, to any
+depth: the first pass.
 -/
 namespace Firefly.AmlParser.F
 open Firefly.AmlLex Firefly.AmlTree Firefly.C13 Firefly.AmlParser Firefly.AmlParser.G Firefly.AmlParser.S
@@ -168,15 +170,91 @@ theorem nextObject_openG {d : Bytes} (f : Nat) {s : PState} (h : FP d s) (hne : 
 
 /-! ## the programs and their layout in the pool -/
 
-/-- `Name(NAME, integer)` or `Device(NAME){…}` (PkgLength width `pw`) -/
+/-- the scoped objects with the arguments PkgLength, NameString, fixed constants, TermList: `Device`, `ThermalZone`,
+`Processor` (id, block address, block length), `PowerResource` (system level, resource order) -/
+inductive BKind where
+  | device
+  | thermal
+  | proc
+  | power
+  deriving DecidableEq
+
+/-- the internal opcode (`0xff` + second opcode byte) -/
+def BKind.op : BKind → Nat
+  | .device => 385
+  | .thermal => 388
+  | .proc => 386
+  | .power => 387
+
+/-- the byte behind the extended-opcode prefix `5b` -/
+def BKind.b2 : BKind → UInt8
+  | .device => 0x82
+  | .thermal => 0x85
+  | .proc => 0x83
+  | .power => 0x84
+
+/-- widths of the fixed constant arguments between the name and the body -/
+def BKind.ws : BKind → List Nat
+  | .device => []
+  | .thermal => []
+  | .proc => [1, 4, 1]
+  | .power => [1, 2]
+
+/-- the description in the namespace (`vs`: the values of the fixed arguments, reduced to their widths) -/
+def BKind.tag : BKind → List Nat → String
+  | .device, _ => "device"
+  | .thermal, _ => "thermal"
+  | .proc, vs => s!"processor:{vs.getD 0 0}:{vs.getD 1 0}:{vs.getD 2 0}"
+  | .power, vs => s!"power:{vs.getD 0 0}:{vs.getD 1 0}"
+
+/-- a constant argument object: pool position, width in bytes (1, 2 or 4), value -/
+structure CArg where
+  e : Nat
+  n : Nat
+  v : Nat
+
+/-- the argument type of a constant of `n` bytes: ByteData, WordData, DWordData -/
+def argTy (n : Nat) : Nat := if n = 1 then 5 else if n = 2 then 6 else 7
+
+/-- the fixed arguments: little-endian constants of the given widths -/
+def encVals : List Nat → List Nat → List UInt8
+  | n :: ws, v :: vs => encConst v n ++ encVals ws vs
+  | _, _ => []
+
+/-! ## leaf named objects: `Event`, `Mutex` -/
+
+/-- named objects without a scope: a name and fixed constant arguments -/
+inductive LKind where
+  | event
+  | mutex
+  deriving DecidableEq
+
+def LKind.op : LKind → Nat
+  | .event => 257
+  | .mutex => 256
+
+def LKind.b2 : LKind → UInt8
+  | .event => 0x02
+  | .mutex => 0x01
+
+/-- widths of the fixed arguments -/
+def LKind.ws : LKind → List Nat
+  | .event => []
+  | .mutex => [1]
+
+/-- `Name(NAME, data)`, `Device(NAME){…}` / `ThermalZone(NAME){…}` / `Processor(NAME, …){…}` / `PowerResource(NAME, …){…}` (PkgLength
+width `pw`, fixed arguments `vals`), or `Event(NAME)` / `Mutex(NAME, sync)` -/
 inductive PObj where
-  | name (q : Decl)
-  | dev (pw : Nat) (seg : List UInt8) (body : List PObj)
+  | name (seg : List UInt8) (dv : DVal)
+  | dev (kd : BKind) (pw : Nat) (seg : List UInt8) (vals : List Nat) (body : List PObj)
+  | leaf (kd : LKind) (seg : List UInt8) (vals : List Nat)
 
 mutual
 def encP : PObj → List UInt8
-  | .name q => q.enc
-  | .dev pw seg body => [0x5b, 0x82] ++ encPkgLength (pw + (seg.length + (encPs body).length)) pw ++ (seg ++ encPs body)
+  | .name seg dv => 0x08 :: (seg ++ dv.enc)
+  | .dev kd pw seg vals body => [0x5b, kd.b2] ++ encPkgLength (pw + (seg.length + ((encVals kd.ws vals).length + (encPs body).length))) pw ++
+      (seg ++ (encVals kd.ws vals ++ encPs body))
+  | .leaf kd seg vals => [0x5b, kd.b2] ++ seg ++ encVals kd.ws vals
 def encPs : List PObj → List UInt8
   | [] => []
   | o :: os => encP o ++ encPs os
@@ -185,8 +263,9 @@ end
 mutual
 /-- number of declarations -/
 def sizeP : PObj → Nat
-  | .name _ => 1
-  | .dev _ _ body => 1 + sizePs body
+  | .name _ _ => 1
+  | .dev kd _ _ _ body => 1 + kd.ws.length + sizePs body
+  | .leaf _ _ _ => 1
 def sizePs : List PObj → Nat
   | [] => 0
   | o :: os => sizeP o + sizePs os
@@ -195,8 +274,9 @@ end
 mutual
 /-- number of packages -/
 def closesP : PObj → Nat
-  | .name _ => 0
-  | .dev _ _ body => 1 + closesPs body
+  | .name _ _ => 0
+  | .dev _ _ _ _ body => 1 + closesPs body
+  | .leaf _ _ _ => 0
 def closesPs : List PObj → Nat
   | [] => 0
   | o :: os => closesP o + closesPs os
@@ -205,20 +285,209 @@ end
 mutual
 /-- well-formed: simple names, integer widths the encoder writes, PkgLength widths that hold the length -/
 def okP : PObj → Prop
-  | .name q => q.OK ∧ q.Simple
-  | .dev pw seg body => 1 ≤ pw ∧ pw ≤ 4 ∧ pw + (seg.length + (encPs body).length) < pkgBoundF pw ∧ NameOK [seg] ∧ seg.length = 4 ∧ okPs body
+  | .name seg dv => NameOK [seg] ∧ seg.length = 4 ∧ dv.OK
+  | .dev kd pw seg vals body => 1 ≤ pw ∧ pw ≤ 4 ∧ pw + (seg.length + ((encVals kd.ws vals).length + (encPs body).length)) < pkgBoundF pw ∧
+      NameOK [seg] ∧ seg.length = 4 ∧ kd.ws.length = vals.length ∧ okPs body
+  | .leaf kd seg vals => NameOK [seg] ∧ seg.length = 4 ∧ kd.ws.length = vals.length
 def okPs : List PObj → Prop
   | [] => True
   | o :: os => okP o ∧ okPs os
 end
+
+/-! ## fixed constant arguments -/
+
+/-- `y` is in the pool `t'` what it is in the pool `t` -/
+def SameAt (t t' : ObjectTree) (y : Nat) : Prop :=
+  live t' y = live t y ∧ Pay (slot t' y) = Pay (slot t y) ∧ C13.P t' y = C13.P t y ∧ K t' y = K t y
+
+/-- a constant argument object under `x` -/
+structure ConstT (t : ObjectTree) (h x : Nat) (a : CArg) : Prop where
+  le : live t a.e = true
+  op : (slot t a.e).opcode = constOp a.n a.v
+  inf : (slot t a.e).infoIndex = pOpcodeTableIndex (constOp a.n a.v) true
+  th : (slot t a.e).tableHandle = h
+  int : IntObj t a.e (intVal a.n a.v)
+  ke : K t a.e = []
+  pe : C13.P t a.e = x
+
+theorem ConstT.frame {t t' : ObjectTree} {h x : Nat} {a : CArg} (c : ConstT t h x a) (sa : SameAt t t' a.e) : ConstT t' h x a :=
+  ⟨by rw [sa.1]; exact c.le, by rw [pay_opcode sa.2.1]; exact c.op, by rw [pay_info sa.2.1]; exact c.inf,
+    by rw [pay_handle sa.2.1]; exact c.th, c.int.of_pay sa.2.1, by rw [sa.2.2.2]; exact c.ke, by rw [sa.2.2.1]; exact c.pe⟩
+
+/-- the constant arguments `es` have been parsed and appended to `x` -/
+structure ArgsBuilt (d : Bytes) (s s' : PState) (x : Nat) (es : List CArg) : Prop where
+  fp : FP d s'
+  rest : SameRest s s'
+  new : ∀ a ∈ es, live s.tree a.e = false
+  nd : (es.map (·.e)).Nodup
+  args : ∀ a ∈ es, ConstT s'.tree s.tableHandle x a
+  kx : K s'.tree x = K s.tree x ++ es.map (·.e)
+  oldl : ∀ y, live s.tree y = true → live s'.tree y = true
+  oldpay : ∀ y, live s.tree y = true → Pay (slot s'.tree y) = Pay (slot s.tree y)
+  oldpar : ∀ y, live s.tree y = true → C13.P s'.tree y = C13.P s.tree y
+  oldk : ∀ y, live s.tree y = true → y ≠ x → K s'.tree y = K s.tree y
+  size : s'.tree.pool.size ≤ s.tree.pool.size + es.length
+
+theorem encVals_len : ∀ (ws vs : List Nat), ws.length = vs.length → (encVals ws vs).length = ws.sum
+  | [], [], _ => by simp [encVals]
+  | n :: ws, v :: vs, h => by
+    simp only [encVals, List.length_append, encConst_length, List.sum_cons]
+    rw [encVals_len ws vs (by simpa using h)]
+  | [], _ :: _, h => by simp at h
+  | _ :: _, [], h => by simp at h
+
+set_option maxRecDepth 10000 in
+/-- **the fixed constant arguments of an object** (`ByteData` / `WordData` / `DWordData`): each becomes a new constant object
+appended to `x` -/
+theorem const_args {d : Bytes} {info x : Nat} (hI : InfoOK info) :
+    ∀ (ws vs : List Nat) (f j : Nat) (s : PState) (base pe : Nat), ws.length = vs.length → (∀ n ∈ ws, n = 1 ∨ n = 2 ∨ n = 4) →
+      FP d s → live s.tree x = true → s.r = { offset := base, pkgEnd := pe } → pe ≤ d.size →
+      BytesAt d base (encVals ws vs) → base + (encVals ws vs).length ≤ pe → s.tree.pool.size + ws.length < INV →
+      j + ws.length ≤ argCnt info → (∀ i, i < ws.length → argAt info (j + i) = argTy (ws.getD i 0)) →
+      ∃ s' es, es.map (·.n) = ws ∧ es.map (·.v) = vs ∧ ArgsBuilt d s s' x es ∧
+        s'.r = { offset := base + (encVals ws vs).length, pkgEnd := pe } ∧
+        ∀ a s'', parseArgs d (f + 1) info x (j + ws.length) s' = .ok (a, s'') → parseArgs d (f + 1 + ws.length) info x j s = .ok (a, s'')
+  | [], [], f, j, s, base, pe, _, _, h, hx, hr, _, _, _, _, _, _ => by
+    refine ⟨s, [], rfl, rfl, ⟨h, SameRest.refl s, fun _ ha => (by cases ha), by simp, fun _ ha => (by cases ha), by simp,
+      fun _ hy => hy, fun _ _ => rfl, fun _ _ => rfl, fun _ _ _ => rfl, by simp⟩, by simpa [encVals] using hr, ?_⟩
+    intro a s'' e
+    simpa using e
+  | n :: ws, v :: vs, f, j, s, base, pe, hlen, hws, h, hx, hr, hpe, hb, hfit, hsz, hj, harg => by
+    simp only [encVals] at hb hfit ⊢
+    rw [List.length_append, encConst_length] at hfit
+    simp only [List.length_cons] at hsz hj harg hlen
+    have hn := hws n (List.mem_cons_self ..)
+    have hb1 : BytesAt d base (encConst v n) := BytesAt.left hb
+    have hb2 : BytesAt d (base + n) (encVals ws vs) := by have := BytesAt.right hb; rw [encConst_length] at this; exact this
+    have hat : (argTy n = argTypeByteData ∧ n = 1 ∧ constOp n v = opBytePrefix) ∨ (argTy n = argTypeWordData ∧ n = 2 ∧ constOp n v = opWordPrefix) ∨
+        (argTy n = argTypeDwordData ∧ n = 4 ∧ constOp n v = opDwordPrefix) ∨ (argTy n = argTypeQwordData ∧ n = 8 ∧ constOp n v = opQwordPrefix) := by
+      rcases hn with e | e | e <;> subst e <;> simp [argTy, constOp, argTypeByteData, argTypeWordData, argTypeDwordData, opBytePrefix, opWordPrefix, opDwordPrefix]
+    obtain ⟨e, s1, e1, h1, c1, c2, c3, c4, c5, c6, fc, ci, cth⟩ := const_object_roundtrip h (by omega) (argTy n) n (constOp n v) hat v base pe hr
+      (fun i hi => hb1 i (by rw [encConst_length]; exact hi)) (by omega)
+    have hx1 : live s1.tree x = true := by rw [fc.livex x (fc.ne hx)]; exact hx
+    obtain ⟨hk1e, hk1⟩ := fresh1_kids fc h.tree.wf h1.tree.wf
+    obtain ⟨s2, e2, h2, hs2, hsz2, sp2, hl2, hP2, _, _, _, hK2⟩ :=
+      append_step_k h1 h.tree.wf (fun y hy => ⟨by rw [fc.livex y (fc.ne hy)]; exact hy, by
+        show (slot s1.tree y).parentIndex = (slot s.tree y).parentIndex; rw [fc.old y (fc.ne hy)]⟩) hx c1 c2 c3
+    have hr2 : s2.r = { offset := base + n, pkgEnd := pe } := by
+      have : s2.r = s1.r := by rw [hs2]
+      rw [this, c6]
+    have hx2 : live s2.tree x = true := by rw [hl2]; exact hx1
+    have r02 : SameRest s s2 := (fresh1_rest fc).trans (SameRest.ofTree hs2)
+    obtain ⟨s', es, hm1, hm2, ab, hr', hk⟩ := const_args hI ws vs f (j + 1) s2 (base + n) pe (by omega) (fun m hm => hws m (List.mem_cons_of_mem _ hm))
+      h2 hx2 hr2 hpe hb2 (by omega) (by rw [hsz2]; have := fc.size.2; omega) (by omega) (fun i hi => by
+        have := harg (i + 1) (by omega)
+        simp only [List.getD_cons_succ] at this
+        rw [← this]; congr 1; omega)
+    have hxe : x ≠ e := fc.ne hx
+    have le2 : live s2.tree e = true := by rw [hl2]; exact c2
+    refine ⟨s', ⟨e, n, v⟩ :: es, by simp [hm1], by simp [hm2], ?_, (by rw [hr', List.length_append, encConst_length]; congr 1; omega), ?_⟩
+    · refine ⟨ab.fp, r02.trans ab.rest, ?_, ?_, ?_, ?_, fun y hy => ab.oldl y (by rw [hl2, fc.livex y (fc.ne hy)]; exact hy), ?_, ?_, ?_, ?_⟩
+      · intro a ha
+        rcases List.mem_cons.1 ha with e' | ha'
+        · rw [e']; exact c1
+        · cases hq : live s.tree a.e with
+          | false => rfl
+          | true =>
+            have := ab.new a ha'
+            rw [hl2, fc.livex a.e (fc.ne hq), hq] at this; cases this
+      · simp only [List.map_cons, List.nodup_cons]
+        refine ⟨?_, ab.nd⟩
+        intro hm
+        obtain ⟨a, ha, hae⟩ := List.mem_map.1 hm
+        have := ab.new a ha
+        rw [hae, le2] at this; cases this
+      · intro a ha
+        rcases List.mem_cons.1 ha with e' | ha'
+        · rw [e']
+          have sa : SameAt s2.tree s'.tree e := ⟨by rw [le2, ab.oldl e le2], ab.oldpay e le2, ab.oldpar e le2, ab.oldk e le2 (fun q => hxe q.symm)⟩
+          have pe2 := sp2.pay e
+          have c0 : ConstT s2.tree s.tableHandle x ⟨e, n, v⟩ :=
+            ⟨le2, by rw [pay_opcode pe2]; exact c5, by rw [pay_info pe2]; exact ci, by rw [pay_handle pe2]; exact cth,
+              (by
+                have : IntObj s1.tree e (intVal n v) := by
+                  refine Or.inr (Or.inr (Or.inr ⟨?_, ?_, ?_, ?_⟩))
+                  · rw [c5]; rcases hn with q | q | q <;> subst q <;> simp [constOp]
+                  · rw [c5]; rcases hn with q | q | q <;> subst q <;> simp [constOp]
+                  · rw [c5]; rcases hn with q | q | q <;> subst q <;> simp [constOp]
+                  · rw [c4]; rcases hn with q | q | q <;> subst q <;> simp [intVal]
+                exact this.of_pay pe2),
+              by rw [hK2 e c2, if_neg (fun q => hxe q.symm)]; exact hk1e, by rw [hP2, if_pos rfl]⟩
+          exact c0.frame sa
+        · have := ab.args a ha'
+          rw [r02.th] at this
+          exact this
+      · rw [ab.kx, hK2 x hx1, if_pos rfl, hk1 x hx]; simp
+      · intro y hy
+        have hy2 : live s2.tree y = true := by rw [hl2, fc.livex y (fc.ne hy)]; exact hy
+        rw [ab.oldpay y hy2, sp2.pay y, fc.old y (fc.ne hy)]
+      · intro y hy
+        have hy2 : live s2.tree y = true := by rw [hl2, fc.livex y (fc.ne hy)]; exact hy
+        rw [ab.oldpar y hy2, hP2, if_neg (fc.ne hy)]
+        show (slot s1.tree y).parentIndex = _
+        rw [fc.old y (fc.ne hy)]; rfl
+      · intro y hy hyx
+        have hy1 : live s1.tree y = true := by rw [fc.livex y (fc.ne hy)]; exact hy
+        have hy2 : live s2.tree y = true := by rw [hl2]; exact hy1
+        rw [ab.oldk y hy2 hyx, hK2 y hy1, if_neg hyx, hk1 y hy]
+      · have := ab.size
+        have := fc.size.2
+        simp only [List.length_cons]
+        rw [hsz2] at *
+        omega
+    · intro a s'' ea
+      have e3 := hk a s'' (by have q : j + 1 + ws.length = j + (ws.length + 1) := by omega
+                              rw [q]; exact ea)
+      show parseArgs d (f + 1 + (ws.length + 1)) info x j s = _
+      have q2 : f + 1 + (ws.length + 1) = ((f + ws.length) + 1) + 1 := by omega
+      have q3 : f + 1 + ws.length = (f + ws.length) + 1 := by omega
+      rw [q3] at e3
+      rw [q2]
+      unfold parseArgs
+      rw [opArgCount_of_info hI, bind_run (optP_ex _ s), if_pos (by omega), opArg_of_info hI j]
+      have h0 := harg 0 (by omega)
+      simp only [Nat.add_zero, List.getD_cons_zero] at h0
+      rw [h0, bind_run (optP_ex _ s)]
+      unfold parseArg
+      rw [if_pos (by rcases hn with q | q | q <;> subst q <;> decide), bind_run e1]
+      dsimp only
+      rw [bind_run e2, if_pos rfl]
+      exact e3
+  | [], _ :: _, _, _, _, _, _, h, _, _, _, _, _, _, _, _, _, _ => by simp at h
+  | _ :: _, [], _, _, _, _, _, h, _, _, _, _, _, _, _, _, _, _ => by simp at h
+
 
 /-! ## a `Device` header -/
 
 set_option maxRecDepth 20000 in
 theorem row_385 : rowSummary 385 = some (true, false, false, 3, [15, 9, 1]) := by decide +kernel
 set_option maxRecDepth 20000 in
-theorem dev_row : pOpcodeTableIndex (0xff + (0x82 : UInt8).toNat) false ≠ badOpcode ∧ (385 : Nat) ≠ pOpIntFreedObject ∧
-    (385 : Nat) ≠ opNoop := by decide +kernel
+theorem row_388 : rowSummary 388 = some (true, false, false, 3, [15, 9, 1]) := by decide +kernel
+set_option maxRecDepth 20000 in
+theorem row_386 : rowSummary 386 = some (true, false, false, 6, [15, 9, 5, 7, 5, 1]) := by decide +kernel
+set_option maxRecDepth 20000 in
+theorem row_387 : rowSummary 387 = some (true, false, false, 5, [15, 9, 5, 6, 1]) := by decide +kernel
+theorem row_blk (kd : BKind) : rowSummary kd.op = some (true, false, false, kd.ws.length + 3, [15, 9] ++ kd.ws.map argTy ++ [1]) := by
+  cases kd
+  · exact row_385
+  · exact row_388
+  · exact row_386
+  · exact row_387
+
+theorem BKind.ws_ok (kd : BKind) : ∀ n ∈ kd.ws, n = 1 ∨ n = 2 ∨ n = 4 := by
+  cases kd <;> simp [BKind.ws]
+
+theorem BKind.ws_le (kd : BKind) : kd.ws.length ≤ 3 := by
+  cases kd <;> simp [BKind.ws]
+set_option maxRecDepth 20000 in
+theorem dev_row (kd : BKind) : pOpcodeTableIndex (0xff + kd.b2.toNat) false ≠ badOpcode ∧ kd.op ≠ pOpIntFreedObject ∧
+    kd.op ≠ opNoop ∧ 0xff + kd.b2.toNat = kd.op := by
+  cases kd <;> decide +kernel
+/-- the opcodes of the scoped objects are none of the opcodes the passes look for -/
+theorem BKind.op_ne (kd : BKind) : kd.op ≠ opBytePrefix ∧ kd.op ≠ opWordPrefix ∧ kd.op ≠ opDwordPrefix ∧ kd.op ≠ opQwordPrefix ∧
+    kd.op ≠ opStringPrefix ∧ kd.op ≠ opIntScopeBlock ∧ kd.op ≠ opScope ∧ kd.op ≠ opIntNamePathOrMethodCall ∧ kd.op ≠ 0x1fd ∧
+    kd.op ≠ 0x08 := by
+  cases kd <;> decide
 
 /-- `pushPkgEnd` inside the table -/
 theorem pushPkgEnd_run (d : Bytes) (e : Nat) (s : PState) (he : e ≤ d.size) :
@@ -229,7 +498,7 @@ theorem pushPkgEnd_run (d : Bytes) (e : Nat) (s : PState) (he : e ≤ d.size) :
 
 /-- the objects a `Device` header creates in the first pass: the device `x`, its name path `c`, its (still empty) scope block
 `sb`, which is the innermost scope from now on; the package of the device is open -/
-structure DevOpen (d : Bytes) (s s' : PState) (x c sb off pe1 : Nat) : Prop where
+structure DevOpen (d : Bytes) (s s' : PState) (kd : BKind) (x c sb off pe1 : Nat) (es : List CArg) : Prop where
   fp : FP d s'
   nx : live s.tree x = false
   nc : live s.tree c = false
@@ -237,8 +506,8 @@ structure DevOpen (d : Bytes) (s s' : PState) (x c sb off pe1 : Nat) : Prop wher
   lx : live s'.tree x = true
   lc : live s'.tree c = true
   lsb : live s'.tree sb = true
-  opx : (slot s'.tree x).opcode = 385
-  infx : (slot s'.tree x).infoIndex = pOpcodeTableIndex 385 true
+  opx : (slot s'.tree x).opcode = kd.op
+  infx : (slot s'.tree x).infoIndex = pOpcodeTableIndex kd.op true
   thx : (slot s'.tree x).tableHandle = s.tableHandle
   opc : (slot s'.tree c).opcode = opIntNamePath
   infc : (slot s'.tree c).infoIndex = pOpcodeTableIndex opIntNamePath true
@@ -247,58 +516,71 @@ structure DevOpen (d : Bytes) (s s' : PState) (x c sb off pe1 : Nat) : Prop wher
   opsb : (slot s'.tree sb).opcode = opIntScopeBlock
   infsb : (slot s'.tree sb).infoIndex = pOpcodeTableIndex opIntScopeBlock true
   thsb : (slot s'.tree sb).tableHandle = s.tableHandle
-  kx : K s'.tree x = [c, sb]
+  kx : K s'.tree x = c :: (es.map (·.e) ++ [sb])
   kc : K s'.tree c = []
   ksb : K s'.tree sb = []
   px : C13.P s'.tree x = topOf s
   pc : C13.P s'.tree c = x
   psb : C13.P s'.tree sb = x
+  args : ∀ a ∈ es, ConstT s'.tree s.tableHandle x a
+  newes : ∀ a ∈ es, live s.tree a.e = false
+  nde : (es.map (·.e)).Nodup
+  hke : ∀ a ∈ es, a.e ≠ x ∧ a.e ≠ c ∧ a.e ≠ sb
   sc : s'.scopeStack = s.scopeStack.push sb
   pk : s'.pkgEndStack = s.pkgEndStack.push pe1
   ab : s'.allBlocks = s.allBlocks
   th : s'.tableHandle = s.tableHandle
   old : OldKept s s' (topOf s) x
-  size : s'.tree.pool.size ≤ s.tree.pool.size + 3
+  size : s'.tree.pool.size ≤ s.tree.pool.size + 3 + es.length
   xcsb : x ≠ c ∧ x ≠ sb ∧ c ≠ sb
 
 set_option maxRecDepth 10000 in
-theorem dev_open {d : Bytes} (hd : d.size + 1024 ≤ 4294967296) (f : Nat) {s : PState} (h : FP d s)
-    (hsk : s.allBlocks = false) (hne : s.scopeStack.size ≠ 0) (hsz : s.tree.pool.size + 3 < INV)
-    (pw : Nat) (seg : List UInt8) (blen base pe : Nat) (hr : s.r = { offset := base, pkgEnd := pe }) (hpe : pe ≤ d.size)
+theorem dev_open {d : Bytes} (hd : d.size + 1024 ≤ 4294967296) (f : Nat) (kd : BKind) {s : PState} (h : FP d s)
+    (hsk : s.allBlocks = false) (hne : s.scopeStack.size ≠ 0) (hsz : s.tree.pool.size + 3 + kd.ws.length < INV)
+    (pw : Nat) (seg : List UInt8) (vals : List Nat) (blen base pe : Nat) (hr : s.r = { offset := base, pkgEnd := pe }) (hpe : pe ≤ d.size)
     (hpw : 1 ≤ pw ∧ pw ≤ 4) (hv : pw + (4 + blen) < pkgBoundF pw) (hseg : NameOK [seg]) (hs4 : seg.length = 4)
-    (hb : BytesAt d base ([0x5b, 0x82] ++ encPkgLength (pw + (4 + blen)) pw ++ seg)) (hfit : base + 2 + pw + 4 + blen ≤ pe) :
-    ∃ s' x c sb, parseNextObject d (f + 8) s = .ok (PRes.ok, s') ∧
-      DevOpen d s s' x c sb (base + 2 + pw) (base + 2 + pw + 4 + blen) ∧
-      s'.r = { offset := base + 2 + pw + 4, pkgEnd := base + 2 + pw + 4 + blen } := by
-  obtain ⟨r1, r2, r3⟩ := dev_row
-  obtain ⟨fl, a1, a2, a3, a4, a5, a6, a7, a8⟩ := rowSummary_spec row_385
-  have hb0 : BytesAt d base [0x5b, 0x82] := BytesAt.left (BytesAt.left hb)
+    (hvl : kd.ws.length = vals.length) (hvb : (encVals kd.ws vals).length ≤ blen)
+    (hb : BytesAt d base ([0x5b, kd.b2] ++ encPkgLength (pw + (4 + blen)) pw ++ seg ++ encVals kd.ws vals))
+    (hfit : base + 2 + pw + 4 + blen ≤ pe) :
+    ∃ s' x c sb es, parseNextObject d (f + kd.ws.length + 8) s = .ok (PRes.ok, s') ∧
+      DevOpen d s s' kd x c sb (base + 2 + pw) (base + 2 + pw + 4 + blen) es ∧ es.map (·.n) = kd.ws ∧ es.map (·.v) = vals ∧
+      s'.r = { offset := base + 2 + pw + 4 + (encVals kd.ws vals).length, pkgEnd := base + 2 + pw + 4 + blen } := by
+  obtain ⟨r1, r2, r3, r4⟩ := dev_row kd
+  obtain ⟨fl, a1, a2, a3, a4, a5, a6, a7, a8⟩ := rowSummary_spec (row_blk kd)
+  obtain ⟨n1, n2, n3, n4, n5, _⟩ := kd.op_ne
+  have hwl := kd.ws_le
+  have hb0 : BytesAt d base [0x5b, kd.b2] := BytesAt.left (BytesAt.left (BytesAt.left hb))
   have hbp : BytesAt d (base + 2) (encPkgLength (pw + (4 + blen)) pw) := by
-    have := BytesAt.right (BytesAt.left hb); simpa using this
+    have := BytesAt.right (BytesAt.left (BytesAt.left hb)); simpa using this
   have hbs : BytesAt d (base + 2 + pw) seg := by
-    have := BytesAt.right hb
+    have := BytesAt.right (BytesAt.left hb)
     rw [List.length_append, encPkgLength_length _ _ hpw.1] at this
     simpa [Nat.add_assoc] using this
-  have eopc : nextOpcode d { offset := base, pkgEnd := pe } = .ok ((385, PRes.ok), { offset := base + 2, pkgEnd := pe }) := by
+  have hbv : BytesAt d (base + 2 + pw + 4) (encVals kd.ws vals) := by
+    have := BytesAt.right hb
+    rw [List.length_append, List.length_append, encPkgLength_length _ _ hpw.1, hs4] at this
+    simpa [Nat.add_assoc] using this
+  have eopc : nextOpcode d { offset := base, pkgEnd := pe } = .ok ((kd.op, PRes.ok), { offset := base + 2, pkgEnd := pe }) := by
     have h0 := hb0 0 (by simp)
     have h1 := hb0 1 (by simp)
     simp at h0 h1
-    exact nextOpcode_ext d base pe 0x82 h0 h1 (by omega) r1
-  obtain ⟨x, s5, o, hk⟩ := nextObject_openG (f + 7) h hne (by omega) 385 2 base pe hr hpe (by omega) eopc a6 r2 r3
+    rw [← r4]
+    exact nextOpcode_ext d base pe kd.b2 h0 h1 (by omega) r1
+  obtain ⟨x, s5, o, hk⟩ := nextObject_openG (f + kd.ws.length + 7) h hne (by omega) kd.op 2 base pe hr hpe (by omega) eopc a6 r2 r3
   -- `parseObjectArgs`
-  suffices hs : ∃ s' c sb, parseObjectArgs d (f + 7) x s5 = .ok (PRes.ok, s') ∧
-      DevOpen d s s' x c sb (base + 2 + pw) (base + 2 + pw + 4 + blen) ∧
-      s'.r = { offset := base + 2 + pw + 4, pkgEnd := base + 2 + pw + 4 + blen } by
-    obtain ⟨s', c, sb, e, r⟩ := hs
-    exact ⟨s', x, c, sb, hk _ _ e, r⟩
+  suffices hs : ∃ s' c sb es, parseObjectArgs d (f + kd.ws.length + 7) x s5 = .ok (PRes.ok, s') ∧
+      DevOpen d s s' kd x c sb (base + 2 + pw) (base + 2 + pw + 4 + blen) es ∧ es.map (·.n) = kd.ws ∧ es.map (·.v) = vals ∧
+      s'.r = { offset := base + 2 + pw + 4 + (encVals kd.ws vals).length, pkgEnd := base + 2 + pw + 4 + blen } by
+    obtain ⟨s', c, sb, es, e, r⟩ := hs
+    exact ⟨s', x, c, sb, es, hk _ _ e, r⟩
   rw [parseObjectArgs, bind_run (getObj_live o.lx), o.opx]
-  rw [if_neg (by decide), if_neg (by decide), if_neg (by decide), if_neg (by decide), if_neg (by decide), o.infx, a1]
+  rw [if_neg n1, if_neg n2, if_neg n3, if_neg n4, if_neg n5, o.infx, a1]
   rw [bind_run (optP_ex fl s5)]
-  suffices hs : ∃ s' c sb, parseArgs d (f + 6) (pOpcodeTableIndex 385 true) x 0 s5 = .ok (PRes.shortCircuit, s') ∧
-      DevOpen d s s' x c sb (base + 2 + pw) (base + 2 + pw + 4 + blen) ∧
-      s'.r = { offset := base + 2 + pw + 4, pkgEnd := base + 2 + pw + 4 + blen } by
-    obtain ⟨s', c, sb, e, r⟩ := hs
-    exact ⟨s', c, sb, by rw [bind_run e]; rfl, r⟩
+  suffices hs : ∃ s' c sb es, parseArgs d (f + kd.ws.length + 6) (pOpcodeTableIndex kd.op true) x 0 s5 = .ok (PRes.shortCircuit, s') ∧
+      DevOpen d s s' kd x c sb (base + 2 + pw) (base + 2 + pw + 4 + blen) es ∧ es.map (·.n) = kd.ws ∧ es.map (·.v) = vals ∧
+      s'.r = { offset := base + 2 + pw + 4 + (encVals kd.ws vals).length, pkgEnd := base + 2 + pw + 4 + blen } by
+    obtain ⟨s', c, sb, es, e, r⟩ := hs
+    exact ⟨s', c, sb, es, by rw [bind_run e]; rfl, r⟩
   -- argument 0: the package length
   have hab5 : s5.allBlocks = false := by rw [o.rest.ab]; exact hsk
   let pe1 := base + 2 + pw + 4 + blen
@@ -318,7 +600,7 @@ theorem dev_open {d : Bytes} (hd : d.size + 1024 ≤ 4294967296) (f : Nat) {s : 
     omega
   have e_push := pushPkgEnd_run d pe1 s5a (show pe1 ≤ d.size by omega)
   generalize hs5b : ({ s5a with pkgEndStack := s5a.pkgEndStack.push pe1, r := { s5a.r with pkgEnd := pe1 } } : PState) = s5b at e_push
-  have e_arg0 : parsePkgLenArg d (pOpcodeTableIndex 385 true) x s5 = .ok ((none, PRes.ok), s5b) := by
+  have e_arg0 : parsePkgLenArg d (pOpcodeTableIndex kd.op true) x s5 = .ok ((none, PRes.ok), s5b) := by
     unfold parsePkgLenArg
     rw [bind_run e_off, bind_run e_pl]
     rw [if_neg (fun hq => hq rfl), a1, bind_run (optP_ex fl s5a), bind_run (allBlocks_ex s5a)]
@@ -349,12 +631,38 @@ theorem dev_open {d : Bytes} (hd : d.size + 1024 ≤ 4294967296) (f : Nat) {s : 
   rw [hlen] at c4 c6
   simp only [List.cons_ne_nil, ↓reduceIte, Nat.sub_zero] at c4
   obtain ⟨hk6c, hk6⟩ := fresh1_kids fc h5b.tree.wf h6.tree.wf
-  obtain ⟨s7, e7, h7, hs7, hsz7, sp7, hl7, hP7, _, _, _, hK7⟩ :=
+  obtain ⟨s7a, e7, h7a, hs7a, hsz7a, sp7a, hl7a, hP7a, _, _, _, hK7a⟩ :=
     append_step_k h6 h5b.tree.wf (fun y hy => ⟨by rw [fc.livex y (fc.ne hy)]; exact hy, by
       show (slot s6.tree y).parentIndex = (slot s5b.tree y).parentIndex; rw [fc.old y (fc.ne hy)]⟩) hx5b c1 c2 c3
-  -- argument 2: the scope block
+  have hxc : x ≠ c := fc.ne hx5b
+  have hx6 : live s6.tree x = true := by rw [fc.livex x hxc]; exact hx5b
+  have hx7a : live s7a.tree x = true := by rw [hl7a]; exact hx6
+  have hc7a : live s7a.tree c = true := by rw [hl7a]; exact c2
+  have hr7a : s7a.r = { offset := base + 2 + pw + 4, pkgEnd := pe1 } := by
+    have : s7a.r = s6.r := by rw [hs7a]
+    rw [this, c6]
+  -- the fixed constant arguments
+  have harg : ∀ i, i < kd.ws.length → argAt (pOpcodeTableIndex kd.op true) (2 + i) = argTy (kd.ws.getD i 0) := by
+    intro i hi
+    rw [a8 (2 + i) (by omega)]
+    cases kd
+    · simp [BKind.ws] at hi
+    · simp [BKind.ws] at hi
+    · have : i = 0 ∨ i = 1 ∨ i = 2 := by simp [BKind.ws] at hi; omega
+      rcases this with e | e | e <;> subst e <;> rfl
+    · have : i = 0 ∨ i = 1 := by simp [BKind.ws] at hi; omega
+      rcases this with e | e <;> subst e <;> rfl
+  obtain ⟨s7, es, hm1, hm2, ab, hr7, hk7⟩ := const_args (info := pOpcodeTableIndex kd.op true) (x := x) a6 kd.ws vals (f + 3) 2 s7a
+    (base + 2 + pw + 4) pe1 hvl kd.ws_ok h7a hx7a hr7a (show pe1 ≤ d.size by omega) hbv (show base + 2 + pw + 4 + _ ≤ pe1 by omega)
+    (by rw [hsz7a]; have := fc.size.2; rw [ht5b] at this; have := o.size; omega) (by rw [a7]; omega) harg
+  have h7 : FP d s7 := ab.fp
+  have hx7 : live s7.tree x = true := ab.oldl x hx7a
+  have hc7 : live s7.tree c = true := ab.oldl c hc7a
+  have hesl : es.length = kd.ws.length := by rw [← hm1, List.length_map]
+  -- the last argument: the scope block
   have hsz7' : s7.tree.pool.size < INV := by
-    rw [hsz7]; have := fc.size.2; rw [ht5b] at this; have := o.size; omega
+    have := ab.size
+    rw [hsz7a] at this; have := fc.size.2; rw [ht5b] at this; have := o.size; omega
   obtain ⟨sb, s8, e8, h8, f8, hr8, hop8, hinf8, hidx8⟩ := newObject_step h7 opIntScopeBlock hsz7' (by decide) info_502
   have hth8 : (slot s8.tree sb).tableHandle = s7.tableHandle := newObject_handle e8
   have e_off8 : lex offset s8 = .ok (s8.r.offset, s8) := by
@@ -384,37 +692,43 @@ theorem dev_open {d : Bytes} (hd : d.size + 1024 ≤ 4294967296) (f : Nat) {s : 
     · exact h9.scopes y hy
     · rw [hy]; exact hsb9
   obtain ⟨hk9sb, hk9⟩ := fresh1_kids f9 h7.tree.wf h9.tree.wf
-  have hx7 : live s7.tree x = true := by rw [hl7, fc.livex x (fc.ne hx5b)]; exact hx5b
   obtain ⟨s11, e11, h11, hs11, hsz11, sp11, hl11, hP11, _, _, _, hK11⟩ :=
     append_step_k h10 h7.tree.wf (fun y hy => ⟨by rw [ht10, f9.livex y (f9.ne hy)]; exact hy, by
       rw [ht10]; show (slot s9.tree y).parentIndex = (slot s7.tree y).parentIndex; rw [f9.old y (f9.ne hy)]⟩) hx7 f9.nlive
       (by rw [ht10]; exact hsb9) (by rw [ht10]; exact f9.pn)
-  have b0 : argAt (pOpcodeTableIndex 385 true) 0 = 15 := a8 0 (by decide)
-  have b1 : argAt (pOpcodeTableIndex 385 true) 1 = 9 := a8 1 (by decide)
-  have b2 : argAt (pOpcodeTableIndex 385 true) 2 = 1 := a8 2 (by decide)
+  have b0 : argAt (pOpcodeTableIndex kd.op true) 0 = 15 := by rw [a8 0 (by omega)]; rfl
+  have b1 : argAt (pOpcodeTableIndex kd.op true) 1 = 9 := by rw [a8 1 (by omega)]; rfl
+  have bL : argAt (pOpcodeTableIndex kd.op true) (2 + kd.ws.length) = 1 := by
+    rw [a8 (2 + kd.ws.length) (by omega)]
+    cases kd <;> rfl
+  have hab7 : s7.allBlocks = false := by
+    rw [ab.rest.ab]
+    have : s7a.allBlocks = s6.allBlocks := by rw [hs7a]
+    rw [this, fc.same.1]; exact hab5b
   have hab10 : s10.allBlocks = false := by
     rw [← hs10]
     show s9.allBlocks = false
-    rw [f9.same.1]
-    have : s7.allBlocks = s6.allBlocks := by rw [hs7]
-    rw [this, fc.same.1]; exact hab5b
-  have erun : parseArgs d (f + 6) (pOpcodeTableIndex 385 true) x 0 s5 = .ok (PRes.shortCircuit, s11) := by
+    rw [f9.same.1]; exact hab7
+  have erun : parseArgs d (f + kd.ws.length + 6) (pOpcodeTableIndex kd.op true) x 0 s5 = .ok (PRes.shortCircuit, s11) := by
     unfold parseArgs
-    rw [a5, bind_run (optP_ex 3 s5), if_pos (by decide), opArg_of_info a6 0, b0, bind_run (optP_ex _ s5)]
+    rw [a5, bind_run (optP_ex _ s5), if_pos (by omega), opArg_of_info a6 0, b0, bind_run (optP_ex _ s5)]
     unfold parseArg
     rw [if_neg (by decide), if_neg (by decide), if_pos (by decide), bind_run e_arg0]
     dsimp only
     rw [if_pos rfl, Nat.zero_add]
     unfold parseArgs
-    rw [a5, bind_run (optP_ex 3 s5b), if_pos (by decide), opArg_of_info a6 1, b1, bind_run (optP_ex _ s5b)]
+    rw [a5, bind_run (optP_ex _ s5b), if_pos (by omega), opArg_of_info a6 1, b1, bind_run (optP_ex _ s5b)]
     unfold parseArg
     have e6' : parseSimpleArg d 9 s5b = .ok ((some c, PRes.ok), s6) := e6
     rw [if_pos (by decide), bind_run e6']
     dsimp only
     rw [bind_run e7, if_pos rfl]
-    unfold parseArgs
     rw [show (1 + 1 : Nat) = 2 from rfl]
-    rw [a5, bind_run (optP_ex 3 s7), if_pos (by decide), opArg_of_info a6 2, b2, bind_run (optP_ex _ s7)]
+    have q : f + kd.ws.length + 4 = f + 3 + 1 + kd.ws.length := by omega
+    rw [q]
+    apply hk7
+    unfold parseArgs
+    rw [a5, bind_run (optP_ex _ s7), if_pos (by omega), opArg_of_info a6 (2 + kd.ws.length), bL, bind_run (optP_ex _ s7)]
     unfold parseArg
     rw [if_neg (by decide), if_neg (by decide), if_neg (by decide), if_neg (by decide), if_neg (by decide),
       if_pos (by decide), bind_assoc, bind_run e_nsb, bind_assoc, bind_run (allBlocks_ex s10), hab10]
@@ -424,56 +738,72 @@ theorem dev_open {d : Bytes} (hd : d.size + 1024 ≤ 4294967296) (f : Nat) {s : 
     rw [bind_run e11, if_neg (by decide)]
     rfl
   -- the facts about the final state
-  have hxc : x ≠ c := fc.ne hx5b
-  have hc7 : live s7.tree c = true := by rw [hl7]; exact c2
   have hxsb : x ≠ sb := f9.ne hx7
   have hcsb : c ≠ sb := f9.ne hc7
   have ht : topOf s ≠ x := fun e => by
     obtain ⟨_, htl, _⟩ := scopeCurrent_top h hne
     rw [e, o.nx] at htl; cases htl
+  have hke : ∀ a ∈ es, a.e ≠ x ∧ a.e ≠ c ∧ a.e ≠ sb := by
+    intro a ha
+    have hn := ab.new a ha
+    have hl := (ab.args a ha).le
+    exact ⟨fun e => (by rw [e, hx7a] at hn; cases hn), fun e => (by rw [e, hc7a] at hn; cases hn), f9.ne hl⟩
   -- liveness along the chain
-  have l5 : ∀ y, live s5.tree y = true → live s11.tree y = true := by
+  have l57a : ∀ y, live s5.tree y = true → live s7a.tree y = true := by
     intro y hy
     have hy5b : live s5b.tree y = true := by rw [ht5b]; exact hy
-    have hy7 : live s7.tree y = true := by rw [hl7, fc.livex y (fc.ne hy5b)]; exact hy5b
-    rw [hl11, ht10, f9.livex y (f9.ne hy7)]; exact hy7
+    rw [hl7a, fc.livex y (fc.ne hy5b)]; exact hy5b
+  have l711 : ∀ y, live s7.tree y = true → live s11.tree y = true := by
+    intro y hy
+    rw [hl11, ht10, f9.livex y (f9.ne hy)]; exact hy
+  have l5 : ∀ y, live s5.tree y = true → live s11.tree y = true := fun y hy => l711 y (ab.oldl y (l57a y hy))
+  have pay711 : ∀ y, live s7.tree y = true → Pay (slot s11.tree y) = Pay (slot s7.tree y) := by
+    intro y hy
+    rw [sp11.pay y, ht10, f9.old y (f9.ne hy)]
   have pay5 : ∀ y, live s5.tree y = true → Pay (slot s11.tree y) = Pay (slot s5.tree y) := by
     intro y hy
     have hy5b : live s5b.tree y = true := by rw [ht5b]; exact hy
-    have hy7 : live s7.tree y = true := by rw [hl7, fc.livex y (fc.ne hy5b)]; exact hy5b
-    rw [sp11.pay y, ht10, f9.old y (f9.ne hy7), sp7.pay y, fc.old y (fc.ne hy5b), ht5b]
+    rw [pay711 y (ab.oldl y (l57a y hy)), ab.oldpay y (l57a y hy), sp7a.pay y, fc.old y (fc.ne hy5b), ht5b]
+  have par711 : ∀ y, live s7.tree y = true → C13.P s11.tree y = C13.P s7.tree y := by
+    intro y hy
+    rw [hP11, if_neg (f9.ne hy), ht10]
+    show (slot s9.tree y).parentIndex = _
+    rw [f9.old y (f9.ne hy)]
+    rfl
   have par5 : ∀ y, live s5.tree y = true → C13.P s11.tree y = C13.P s5.tree y := by
     intro y hy
     have hy5b : live s5b.tree y = true := by rw [ht5b]; exact hy
-    have hy7 : live s7.tree y = true := by rw [hl7, fc.livex y (fc.ne hy5b)]; exact hy5b
-    rw [hP11, if_neg (f9.ne hy7), ht10]
-    show (slot s9.tree y).parentIndex = _
-    rw [f9.old y (f9.ne hy7)]
-    show C13.P s7.tree y = _
-    rw [hP7, if_neg (fc.ne hy5b)]
+    rw [par711 y (ab.oldl y (l57a y hy)), ab.oldpar y (l57a y hy), hP7a, if_neg (fc.ne hy5b)]
     show (slot s6.tree y).parentIndex = _
     rw [fc.old y (fc.ne hy5b), ht5b]
     rfl
-  have kid5 : ∀ y, live s5.tree y = true → K s11.tree y = if y = x then [c, sb] else K s5.tree y := by
+  have kid711 : ∀ y, live s7.tree y = true → K s11.tree y = if y = x then K s7.tree x ++ [sb] else K s7.tree y := by
+    intro y hy
+    have hy10 : live s10.tree y = true := by rw [ht10, f9.livex y (f9.ne hy)]; exact hy
+    rw [hK11 y hy10, ht10, hk9 x hx7, hk9 y hy]
+  have hk7x : K s7.tree x = c :: es.map (·.e) := by
+    rw [ab.kx, hK7a x hx6, if_pos rfl, hk6 x hx5b, ht5b, o.kx]; rfl
+  have kid5 : ∀ y, live s5.tree y = true → K s11.tree y = if y = x then c :: (es.map (·.e) ++ [sb]) else K s5.tree y := by
     intro y hy
     have hy5b : live s5b.tree y = true := by rw [ht5b]; exact hy
     have hy6 : live s6.tree y = true := by rw [fc.livex y (fc.ne hy5b)]; exact hy5b
-    have hy7 : live s7.tree y = true := by rw [hl7]; exact hy6
-    have hy10 : live s10.tree y = true := by rw [ht10, f9.livex y (f9.ne hy7)]; exact hy7
-    rw [hK11 y hy10, ht10, hk9 x hx7, hk9 y hy7, hK7 x (by rw [fc.livex x hxc]; exact hx5b), hK7 y hy6, hk6 x hx5b, hk6 y hy5b, ht5b, o.kx]
+    rw [kid711 y (ab.oldl y (l57a y hy))]
     by_cases hyx : y = x
-    · rw [if_pos hyx, if_pos hyx, if_pos rfl]; rfl
-    · rw [if_neg hyx, if_neg hyx, if_neg hyx]
+    · rw [if_pos hyx, if_pos hyx, hk7x]; rfl
+    · rw [if_neg hyx, if_neg hyx, ab.oldk y (l57a y hy) hyx, hK7a y hy6, if_neg hyx, hk6 y hy5b, ht5b]
   have hth5 : s5.tableHandle = s.tableHandle := o.rest.th
-  have hth7 : s7.tableHandle = s.tableHandle := by
-    have : s7.tableHandle = s6.tableHandle := by rw [hs7]
+  have hth7a : s7a.tableHandle = s.tableHandle := by
+    have : s7a.tableHandle = s6.tableHandle := by rw [hs7a]
     rw [this, fc.same.2.1, hth5b, hth5]
+  have hth7 : s7.tableHandle = s.tableHandle := by rw [ab.rest.th, hth7a]
   have hsb10 : live s10.tree sb = true := by rw [ht10]; exact hsb9
   have hc10 : live s10.tree c = true := by rw [ht10, f9.livex c hcsb]; exact hc7
-  refine ⟨s11, c, sb, erun, ?_, ?_⟩
+  have payc : Pay (slot s11.tree c) = Pay (slot s6.tree c) := by
+    rw [pay711 c hc7, ab.oldpay c hc7a, sp7a.pay c]
+  refine ⟨s11, c, sb, es, erun, ?_, hm1, hm2, ?_⟩
   · refine ⟨h11, o.nx, ?_, ?_, l5 x o.lx, by rw [hl11]; exact hc10, by rw [hl11]; exact hsb10,
       by rw [pay_opcode (pay5 x o.lx)]; exact o.opx, by rw [pay_info (pay5 x o.lx)]; exact o.infx,
-      by rw [pay_handle (pay5 x o.lx)]; exact o.thx, ?_, ?_, ?_, ?_, ?_, ?_, ?_, ?_, ?_, ?_, ?_, ?_, ?_, ?_, ?_, ?_, ?_, ?_, ?_,
+      by rw [pay_handle (pay5 x o.lx)]; exact o.thx, ?_, ?_, ?_, ?_, ?_, ?_, ?_, ?_, ?_, ?_, ?_, ?_, ?_, ?_, ?_, ab.nd, hke, ?_, ?_, ?_, ?_, ?_, ?_,
       ⟨hxc, hxsb, hcsb⟩⟩
     · -- `c` not live in `s`
       cases hq : live s.tree c with
@@ -483,34 +813,42 @@ theorem dev_open {d : Bytes} (hd : d.size + 1024 ≤ 4294967296) (f : Nat) {s : 
       | false => rfl
       | true =>
         have h5 := o.old.lv sb hq
-        have hy5b : live s5b.tree sb = true := by rw [ht5b]; exact h5
-        have : live s7.tree sb = true := by rw [hl7, fc.livex sb (fc.ne hy5b)]; exact hy5b
+        have : live s7.tree sb = true := ab.oldl sb (l57a sb h5)
         rw [f9.nlive] at this; cases this
-    · rw [pay_opcode (sp11.pay c), ht10, f9.old c hcsb, pay_opcode (sp7.pay c)]; exact c5
-    · rw [pay_info (sp11.pay c), ht10, f9.old c hcsb, pay_info (sp7.pay c)]; exact ci
-    · rw [pay_handle (sp11.pay c), ht10, f9.old c hcsb, pay_handle (sp7.pay c), cth, hth5b, hth5]
-    · rw [pay_value (sp11.pay c), ht10, f9.old c hcsb, pay_value (sp7.pay c)]; exact c4
+    · rw [pay_opcode payc]; exact c5
+    · rw [pay_info payc]; exact ci
+    · rw [pay_handle payc, cth, hth5b, hth5]
+    · rw [pay_value payc]; exact c4
     · rw [pay_opcode (sp11.pay sb), ht10, hsl9]; exact hop8
     · rw [pay_info (sp11.pay sb), ht10, hsl9]; exact hinf8
     · rw [pay_handle (sp11.pay sb), ht10, hsl9]; show (slot s8.tree sb).tableHandle = _; rw [hth8, hth7]
     · rw [kid5 x o.lx, if_pos rfl]
-    · rw [hK11 c hc10, if_neg (fun e => hxc e.symm), ht10, hk9 c hc7, hK7 c c2, if_neg (fun e => hxc e.symm)]; exact hk6c
+    · rw [kid711 c hc7, if_neg (fun e => hxc e.symm), ab.oldk c hc7a (fun e => hxc e.symm), hK7a c c2, if_neg (fun e => hxc e.symm)]
+      exact hk6c
     · rw [hK11 sb hsb10, if_neg (fun e => hxsb e.symm), ht10]; exact hk9sb
     · rw [par5 x o.lx]; exact o.px
-    · rw [hP11, if_neg hcsb, ht10]
-      show (slot s9.tree c).parentIndex = _
-      rw [f9.old c hcsb]
-      show C13.P s7.tree c = _
-      rw [hP7, if_pos rfl]
+    · rw [par711 c hc7, ab.oldpar c hc7a, hP7a, if_pos rfl]
     · rw [hP11, if_pos rfl]
+    · intro a ha
+      have ca := ab.args a ha
+      rw [hth7a] at ca
+      obtain ⟨k1, k2, k3⟩ := hke a ha
+      refine ca.frame ⟨?_, pay711 a.e ca.le, par711 a.e ca.le, ?_⟩
+      · rw [l711 a.e ca.le, ca.le]
+      · rw [kid711 a.e ca.le, if_neg k1]
+    · intro a ha
+      have := ab.new a ha
+      cases hq : live s.tree a.e with
+      | false => rfl
+      | true => rw [l57a _ (o.old.lv _ hq)] at this; cases this
     · have e1 : s11.scopeStack = s10.scopeStack := by rw [hs11]
       have e2 : s10.scopeStack = s9.scopeStack.push sb := by rw [← hs10]
-      have e3 : s7.scopeStack = s6.scopeStack := by rw [hs7]
-      rw [e1, e2, f9.scope, e3, fc.scope, hsc5b, o.rest.sc]
+      have e3 : s7a.scopeStack = s6.scopeStack := by rw [hs7a]
+      rw [e1, e2, f9.scope, ab.rest.sc, e3, fc.scope, hsc5b, o.rest.sc]
     · have e1 : s11.pkgEndStack = s10.pkgEndStack := by rw [hs11]
       have e2 : s10.pkgEndStack = s9.pkgEndStack := by rw [← hs10]
-      have e3 : s7.pkgEndStack = s6.pkgEndStack := by rw [hs7]
-      rw [e1, e2, f9.pkg, e3, fc.pkg, hpk5b, o.rest.pk]
+      have e3 : s7a.pkgEndStack = s6.pkgEndStack := by rw [hs7a]
+      rw [e1, e2, f9.pkg, ab.rest.pk, e3, fc.pkg, hpk5b, o.rest.pk]
     · have e1 : s11.allBlocks = s10.allBlocks := by rw [hs11]
       rw [e1, hab10, hsk]
     · have e1 : s11.tableHandle = s10.tableHandle := by rw [hs11]
@@ -524,26 +862,215 @@ theorem dev_open {d : Bytes} (hd : d.size + 1024 ≤ 4294967296) (f : Nat) {s : 
     · have := o.size
       have := fc.size.2
       have := f9.size.2
+      have := ab.size
       rw [hsz11, ht10]
-      rw [hsz7] at *
+      rw [hsz7a] at *
       rw [ht5b] at *
       omega
   · have e1 : s11.r = s10.r := by rw [hs11]
     have e2 : s10.r = s9.r := by rw [← hs10]
-    have e3 : s7.r = s6.r := by rw [hs7]
-    rw [e1, e2, hr9, hr8, e3, c6]
+    rw [e1, e2, hr9, hr8, hr7]
+
+/-! ## leaf named objects: rows and the first pass -/
+
+set_option maxRecDepth 20000 in
+theorem row_257 : rowSummary 257 = some (true, false, false, 1, [9]) := by decide +kernel
+set_option maxRecDepth 20000 in
+theorem row_256 : rowSummary 256 = some (true, false, false, 2, [9, 5]) := by decide +kernel
+
+theorem row_leaf (kd : LKind) : rowSummary kd.op = some (true, false, false, kd.ws.length + 1, 9 :: kd.ws.map argTy) := by
+  cases kd
+  · exact row_257
+  · exact row_256
+
+set_option maxRecDepth 20000 in
+theorem leaf_row (kd : LKind) : pOpcodeTableIndex (0xff + kd.b2.toNat) false ≠ badOpcode ∧ kd.op ≠ pOpIntFreedObject ∧
+    kd.op ≠ opNoop ∧ 0xff + kd.b2.toNat = kd.op ∧ (∀ n ∈ kd.ws, n = 1 ∨ n = 2 ∨ n = 4) := by
+  cases kd <;> decide +kernel
+
+theorem LKind.op_ne (kd : LKind) : kd.op ≠ opBytePrefix ∧ kd.op ≠ opWordPrefix ∧ kd.op ≠ opDwordPrefix ∧ kd.op ≠ opQwordPrefix ∧
+    kd.op ≠ opStringPrefix ∧ kd.op ≠ opIntScopeBlock ∧ kd.op ≠ opScope ∧ kd.op ≠ opIntNamePathOrMethodCall ∧ kd.op ≠ 0x1fd ∧
+    kd.op ≠ 0x08 := by
+  cases kd <;> decide
+
+/-- the objects a leaf named declaration creates in the first pass: the object `x`, its name path `c`, its constant arguments -/
+structure LeafOpen (d : Bytes) (s s' : PState) (kd : LKind) (x c off : Nat) (es : List CArg) : Prop where
+  fp : FP d s'
+  nx : live s.tree x = false
+  nc : live s.tree c = false
+  lx : live s'.tree x = true
+  lc : live s'.tree c = true
+  opx : (slot s'.tree x).opcode = kd.op
+  infx : (slot s'.tree x).infoIndex = pOpcodeTableIndex kd.op true
+  thx : (slot s'.tree x).tableHandle = s.tableHandle
+  opc : (slot s'.tree c).opcode = opIntNamePath
+  infc : (slot s'.tree c).infoIndex = pOpcodeTableIndex opIntNamePath true
+  thc : (slot s'.tree c).tableHandle = s.tableHandle
+  valc : (slot s'.tree c).value = .bytes off 4
+  kx : K s'.tree x = c :: es.map (·.e)
+  kc : K s'.tree c = []
+  px : C13.P s'.tree x = topOf s
+  pc : C13.P s'.tree c = x
+  args : ∀ a ∈ es, ConstT s'.tree s.tableHandle x a
+  newes : ∀ a ∈ es, live s.tree a.e = false
+  nd : (x :: c :: es.map (·.e)).Nodup
+  rest : SameRest s s'
+  old : OldKept s s' (topOf s) x
+  size : s'.tree.pool.size ≤ s.tree.pool.size + 2 + es.length
+
+set_option maxRecDepth 10000 in
+theorem leaf_open {d : Bytes} (hd : d.size + 1024 ≤ 4294967296) (f : Nat) (kd : LKind) {s : PState} (h : FP d s)
+    (hne : s.scopeStack.size ≠ 0) (hsz : s.tree.pool.size + 3 < INV)
+    (seg : List UInt8) (vals : List Nat) (base pe : Nat) (hr : s.r = { offset := base, pkgEnd := pe }) (hpe : pe ≤ d.size)
+    (hseg : NameOK [seg]) (hs4 : seg.length = 4) (hvl : kd.ws.length = vals.length)
+    (hb : BytesAt d base ([0x5b, kd.b2] ++ seg ++ encVals kd.ws vals)) (hfit : base + 2 + 4 + (encVals kd.ws vals).length ≤ pe) :
+    ∃ s' x c es, parseNextObject d (f + kd.ws.length + 5) s = .ok (PRes.ok, s') ∧ LeafOpen d s s' kd x c (base + 2) es ∧
+      es.map (·.n) = kd.ws ∧ es.map (·.v) = vals ∧
+      s'.r = { offset := base + 2 + 4 + (encVals kd.ws vals).length, pkgEnd := pe } := by
+  obtain ⟨r1, r2, r3, r4, r5⟩ := leaf_row kd
+  obtain ⟨fl, a1, a2, a3, a4, a5, a6, a7, a8⟩ := rowSummary_spec (row_leaf kd)
+  obtain ⟨n1, n2, n3, n4, n5, _⟩ := kd.op_ne
+  have hwl : kd.ws.length ≤ 1 := by cases kd <;> simp [LKind.ws]
+  have hb0 : BytesAt d base [0x5b, kd.b2] := BytesAt.left (BytesAt.left hb)
+  have hbs : BytesAt d (base + 2) seg := by
+    have := BytesAt.right (BytesAt.left hb); simpa using this
+  have hbv : BytesAt d (base + 2 + 4) (encVals kd.ws vals) := by
+    have := BytesAt.right hb
+    rw [List.length_append, hs4] at this
+    simpa [Nat.add_assoc] using this
+  have eopc : nextOpcode d { offset := base, pkgEnd := pe } = .ok ((kd.op, PRes.ok), { offset := base + 2, pkgEnd := pe }) := by
+    have h0 := hb0 0 (by simp)
+    have h1 := hb0 1 (by simp)
+    simp at h0 h1
+    rw [← r4]
+    exact nextOpcode_ext d base pe kd.b2 h0 h1 (by omega) r1
+  obtain ⟨x, s5, o, hk⟩ := nextObject_openG (f + kd.ws.length + 4) h hne (by omega) kd.op 2 base pe hr hpe (by omega) eopc a6 r2 r3
+  -- argument 0: the name
+  obtain ⟨c, s6, e6, h6, c1, c2, c3, c4, c5, c6, fc, ci, cth⟩ := name_object_roundtrip hd o.fp (by have := o.size; omega)
+    false 0 [seg] (base + 2) pe o.r hpe hseg
+    (by have : encName false 0 [seg] = seg := by simp [encName]
+        rw [this]; exact hbs) (by simp [encName, hs4]; omega)
+  have hlen : (encName false 0 [seg]).length = 4 := by simp [encName, hs4]
+  rw [hlen] at c4 c6
+  simp only [List.cons_ne_nil, ↓reduceIte, Nat.sub_zero] at c4
+  obtain ⟨hk6c, hk6⟩ := fresh1_kids fc o.fp.tree.wf h6.tree.wf
+  obtain ⟨s7, e7, h7, hs7, hsz7, sp7, hl7, hP7, _, _, _, hK7⟩ :=
+    append_step_k h6 o.fp.tree.wf (fun y hy => ⟨by rw [fc.livex y (fc.ne hy)]; exact hy, by
+      show (slot s6.tree y).parentIndex = (slot s5.tree y).parentIndex; rw [fc.old y (fc.ne hy)]⟩) o.lx c1 c2 c3
+  have hx6 : live s6.tree x = true := by rw [fc.livex x (fc.ne o.lx)]; exact o.lx
+  have hx7 : live s7.tree x = true := by rw [hl7]; exact hx6
+  have hr7 : s7.r = { offset := base + 2 + 4, pkgEnd := pe } := by
+    have : s7.r = s6.r := by rw [hs7]
+    rw [this, c6]
+  -- the constant arguments
+  have harg : ∀ i, i < kd.ws.length → argAt (pOpcodeTableIndex kd.op true) (1 + i) = argTy (kd.ws.getD i 0) := by
+    intro i hi
+    rw [a8 (1 + i) (by omega)]
+    have hi0 : i = 0 := by omega
+    subst hi0
+    cases kd
+    · simp [LKind.ws] at hi
+    · rfl
+  obtain ⟨s8, es, hm1, hm2, ab, hr8, hk8⟩ := const_args (info := pOpcodeTableIndex kd.op true) (x := x) a6 kd.ws vals (f + 1) 1 s7 (base + 2 + 4) pe hvl r5
+    h7 hx7 hr7 hpe hbv hfit (by rw [hsz7]; have := fc.size.2; have := o.size; omega) (by rw [a7]; omega) harg
+  have hxc : x ≠ c := fc.ne o.lx
+  have hc7 : live s7.tree c = true := by rw [hl7]; exact c2
+  have hth5 : s5.tableHandle = s.tableHandle := o.rest.th
+  have hth7 : s7.tableHandle = s.tableHandle := by
+    have : s7.tableHandle = s6.tableHandle := by rw [hs7]
+    rw [this, fc.same.2.1, hth5]
+  have ht : topOf s ≠ x := fun e => by
+    obtain ⟨_, htl, _⟩ := scopeCurrent_top h hne
+    rw [e, o.nx] at htl; cases htl
+  -- frames from `s5` to `s8`
+  have l5 : ∀ y, live s5.tree y = true → live s8.tree y = true := fun y hy =>
+    ab.oldl y (by rw [hl7, fc.livex y (fc.ne hy)]; exact hy)
+  have l57 : ∀ y, live s5.tree y = true → live s7.tree y = true := fun y hy => by rw [hl7, fc.livex y (fc.ne hy)]; exact hy
+  have pay5 : ∀ y, live s5.tree y = true → Pay (slot s8.tree y) = Pay (slot s5.tree y) := fun y hy => by
+    rw [ab.oldpay y (l57 y hy), sp7.pay y, fc.old y (fc.ne hy)]
+  have par5 : ∀ y, live s5.tree y = true → C13.P s8.tree y = C13.P s5.tree y := fun y hy => by
+    rw [ab.oldpar y (l57 y hy), hP7, if_neg (fc.ne hy)]
+    show (slot s6.tree y).parentIndex = _
+    rw [fc.old y (fc.ne hy)]; rfl
+  have kid5 : ∀ y, live s5.tree y = true → y ≠ x → K s8.tree y = K s5.tree y := fun y hy hyx => by
+    have hy6 : live s6.tree y = true := by rw [fc.livex y (fc.ne hy)]; exact hy
+    rw [ab.oldk y (l57 y hy) hyx, hK7 y hy6, if_neg hyx, hk6 y hy]
+  have erun : parseObjectArgs d (f + kd.ws.length + 4) x s5 = .ok (PRes.ok, s8) := by
+    rw [parseObjectArgs, bind_run (getObj_live o.lx), o.opx]
+    rw [if_neg n1, if_neg n2, if_neg n3, if_neg n4, if_neg n5, o.infx, a1, bind_run (optP_ex fl s5)]
+    have eargs : parseArgs d (f + kd.ws.length + 3) (pOpcodeTableIndex kd.op true) x 0 s5 = .ok (PRes.ok, s8) := by
+      unfold parseArgs
+      have b0 : argAt (pOpcodeTableIndex kd.op true) 0 = 9 := a8 0 (by omega)
+      rw [a5, bind_run (optP_ex _ s5), if_pos (by omega), opArg_of_info a6 0, b0, bind_run (optP_ex _ s5)]
+      unfold parseArg
+      have e6' : parseSimpleArg d 9 s5 = .ok ((some c, PRes.ok), s6) := e6
+      rw [if_pos (by decide), bind_run e6']
+      dsimp only
+      rw [bind_run e7, if_pos rfl]
+      have q : f + kd.ws.length + 2 = f + 1 + 1 + kd.ws.length := by omega
+      rw [q, Nat.zero_add]
+      apply hk8
+      unfold parseArgs
+      rw [a5, bind_run (optP_ex _ s8), if_neg (by omega)]
+      rfl
+    rw [bind_run eargs]
+    rfl
+  have hke : ∀ a ∈ es, a.e ≠ x ∧ a.e ≠ c := by
+    intro a ha
+    have := ab.new a ha
+    exact ⟨fun e => (by rw [e, hx7] at this; cases this), fun e => (by rw [e, hc7] at this; cases this)⟩
+  refine ⟨s8, x, c, es, hk _ _ erun, ?_, hm1, hm2, hr8⟩
+  refine ⟨ab.fp, o.nx, ?_, l5 x o.lx, ab.oldl c hc7, by rw [pay_opcode (pay5 x o.lx)]; exact o.opx,
+    by rw [pay_info (pay5 x o.lx)]; exact o.infx, by rw [pay_handle (pay5 x o.lx)]; exact o.thx, ?_, ?_, ?_, ?_, ?_, ?_, ?_, ?_, ?_, ?_, ?_, ?_, ?_, ?_⟩
+  · cases hq : live s.tree c with
+    | false => rfl
+    | true => have := o.old.lv c hq; rw [c1] at this; cases this
+  · rw [pay_opcode (ab.oldpay c hc7), pay_opcode (sp7.pay c)]; exact c5
+  · rw [pay_info (ab.oldpay c hc7), pay_info (sp7.pay c)]; exact ci
+  · rw [pay_handle (ab.oldpay c hc7), pay_handle (sp7.pay c), cth, hth5]
+  · rw [pay_value (ab.oldpay c hc7), pay_value (sp7.pay c)]; exact c4
+  · rw [ab.kx, hK7 x hx6, if_pos rfl, hk6 x o.lx, o.kx]; rfl
+  · rw [ab.oldk c hc7 (fun e => hxc e.symm), hK7 c c2, if_neg (fun e => hxc e.symm)]; exact hk6c
+  · rw [par5 x o.lx]; exact o.px
+  · rw [ab.oldpar c hc7, hP7, if_pos rfl]
+  · intro a ha
+    have := ab.args a ha
+    rw [hth7] at this
+    exact this
+  · intro a ha
+    have := ab.new a ha
+    cases hq : live s.tree a.e with
+    | false => rfl
+    | true => rw [l57 _ (o.old.lv _ hq)] at this; cases this
+  · simp only [List.nodup_cons, List.mem_cons, List.mem_map, not_or]
+    refine ⟨⟨hxc, ?_⟩, ?_, ab.nd⟩
+    · rintro ⟨a, ha, e⟩; exact (hke a ha).1 e
+    · rintro ⟨a, ha, e⟩; exact (hke a ha).2 e
+  · exact (o.rest.trans ((fresh1_rest fc).trans (SameRest.ofTree hs7))).trans ab.rest
+  · refine ⟨fun y hy => l5 y (o.old.lv y hy), fun y hy => by rw [par5 y (o.old.lv y hy)]; exact o.old.par y hy,
+      fun y hy => by rw [pay5 y (o.old.lv y hy)]; exact o.old.pay y hy, ?_⟩
+    intro y hy
+    have hyx : y ≠ x := fun e => by rw [e, o.nx] at hy; cases hy
+    rw [kid5 y (o.old.lv y hy) hyx]; exact o.old.kids y hy
+  · have := o.size
+    have := fc.size.2
+    have := ab.size
+    rw [hsz7] at *
+    omega
 
 /-! ## the layout of a program in the pool -/
 
 /-- a program with the pool positions of its objects: `Name` object, name path, integer; device, name path, scope block -/
 inductive Node where
-  | name (x c k off : Nat) (q : Decl)
-  | dev (x c sb off pw : Nat) (seg : List UInt8) (kids : List Node)
+  | name (x c k off : Nat) (seg : List UInt8) (dv : DVal)
+  | dev (kd : BKind) (x c sb off pw : Nat) (seg : List UInt8) (es : List CArg) (kids : List Node)
+  | leaf (kd : LKind) (x c off : Nat) (seg : List UInt8) (es : List CArg)
 
 mutual
 def Node.prog : Node → PObj
-  | .name _ _ _ _ q => .name q
-  | .dev _ _ _ _ pw seg kids => .dev pw seg (progs kids)
+  | .name _ _ _ _ seg dv => .name seg dv
+  | .dev kd _ _ _ _ pw seg es kids => .dev kd pw seg (es.map (·.v)) (progs kids)
+  | .leaf kd _ _ _ seg es => .leaf kd seg (es.map (·.v))
 def progs : List Node → List PObj
   | [] => []
   | n :: ns => n.prog :: progs ns
@@ -553,21 +1080,23 @@ end
 contributes its `Name` object and its integer, afterwards only the `Name` object -/
 def tops (done : Bool) : List Node → List Nat
   | [] => []
-  | .name x _ k _ _ :: ns => (if done then [x] else [x, k]) ++ tops done ns
-  | .dev x _ _ _ _ _ _ :: ns => x :: tops done ns
+  | .name x _ k _ _ _ :: ns => (if done then [x] else [x, k]) ++ tops done ns
+  | .dev _ x _ _ _ _ _ _ _ :: ns => x :: tops done ns
+  | .leaf _ x _ _ _ _ :: ns => x :: tops done ns
 
 mutual
 /-- all pool positions of a node -/
 def Node.objs : Node → List Nat
-  | .name x c k _ _ => [x, c, k]
-  | .dev x c sb _ _ _ kids => [x, c, sb] ++ objsL kids
+  | .name x c k _ _ _ => [x, c, k]
+  | .dev _ x c sb _ _ _ es kids => [x, c, sb] ++ (es.map (·.e) ++ objsL kids)
+  | .leaf _ x c _ _ es => x :: c :: es.map (·.e)
 def objsL : List Node → List Nat
   | [] => []
   | n :: ns => n.objs ++ objsL ns
 end
 
 /-- the three objects of `Name(NAME, integer)` under the scope block `p` -/
-structure NameT (d : Bytes) (t : ObjectTree) (h p x c k off : Nat) (q : Decl) (done : Bool) : Prop where
+structure NameT (d : Bytes) (t : ObjectTree) (h p x c k off : Nat) (seg : List UInt8) (dv : DVal) (done : Bool) : Prop where
   lx : live t x = true
   lc : live t c = true
   lk : live t k = true
@@ -578,27 +1107,28 @@ structure NameT (d : Bytes) (t : ObjectTree) (h p x c k off : Nat) (q : Decl) (d
   infc : (slot t c).infoIndex = pOpcodeTableIndex opIntNamePath true
   thc : (slot t c).tableHandle = h
   valc : (slot t c).value = .bytes off 4
-  opk : (slot t k).opcode = constOp q.w q.v
-  infk : (slot t k).infoIndex = pOpcodeTableIndex (constOp q.w q.v) true
+  opk : (slot t k).opcode = dv.op
+  infk : (slot t k).infoIndex = pOpcodeTableIndex dv.op true
   thk : (slot t k).tableHandle = h
-  int : IntObj t k (intVal q.w q.v)
+  dat : DataAt d t k dv
   kx : K t x = if done then [c, k] else [c]
   kc : K t c = []
   kk : K t k = []
   px : C13.P t x = p
   pc : C13.P t c = x
   pk : C13.P t k = if done then x else p
-  nm : done = true → (slot t x).name = Name.ofList (q.segs.headD [])
-  bytes : BytesAt d off (q.segs.headD [])
-  seg4 : (q.segs.headD []).length = 4
+  nm : done = true → (slot t x).name = Name.ofList seg
+  bytes : BytesAt d off seg
+  seg4 : seg.length = 4
 
 /-- the three objects of `Device(NAME){…}` under the scope block `p` (without the contents of its scope block) -/
-structure DevT (d : Bytes) (t : ObjectTree) (h p x c sb off : Nat) (seg : List UInt8) (done : Bool) : Prop where
+structure DevT (d : Bytes) (t : ObjectTree) (h p : Nat) (kd : BKind) (x c sb off : Nat) (seg : List UInt8) (es : List CArg)
+    (done : Bool) : Prop where
   lx : live t x = true
   lc : live t c = true
   lsb : live t sb = true
-  opx : (slot t x).opcode = 385
-  infx : (slot t x).infoIndex = pOpcodeTableIndex 385 true
+  opx : (slot t x).opcode = kd.op
+  infx : (slot t x).infoIndex = pOpcodeTableIndex kd.op true
   thx : (slot t x).tableHandle = h
   opc : (slot t c).opcode = opIntNamePath
   infc : (slot t c).infoIndex = pOpcodeTableIndex opIntNamePath true
@@ -607,21 +1137,46 @@ structure DevT (d : Bytes) (t : ObjectTree) (h p x c sb off : Nat) (seg : List U
   opsb : (slot t sb).opcode = opIntScopeBlock
   infsb : (slot t sb).infoIndex = pOpcodeTableIndex opIntScopeBlock true
   thsb : (slot t sb).tableHandle = h
-  kx : K t x = [c, sb]
+  kx : K t x = c :: (es.map (·.e) ++ [sb])
   kc : K t c = []
   px : C13.P t x = p
   pc : C13.P t c = x
   psb : C13.P t sb = x
+  args : ∀ a ∈ es, ConstT t h x a
+  wsok : es.map (·.n) = kd.ws
   nm : done = true → (slot t x).name = Name.ofList seg
   bytes : BytesAt d off seg
   seg4 : seg.length = 4
+
+/-- the objects of `Event(NAME)` / `Mutex(NAME, sync)` under the scope block `p` -/
+structure LeafT (d : Bytes) (t : ObjectTree) (h p : Nat) (kd : LKind) (x c off : Nat) (seg : List UInt8) (es : List CArg)
+    (done : Bool) : Prop where
+  lx : live t x = true
+  lc : live t c = true
+  opx : (slot t x).opcode = kd.op
+  infx : (slot t x).infoIndex = pOpcodeTableIndex kd.op true
+  thx : (slot t x).tableHandle = h
+  opc : (slot t c).opcode = opIntNamePath
+  infc : (slot t c).infoIndex = pOpcodeTableIndex opIntNamePath true
+  thc : (slot t c).tableHandle = h
+  valc : (slot t c).value = .bytes off 4
+  kx : K t x = c :: es.map (·.e)
+  kc : K t c = []
+  px : C13.P t x = p
+  pc : C13.P t c = x
+  args : ∀ a ∈ es, ConstT t h x a
+  nm : done = true → (slot t x).name = Name.ofList seg
+  bytes : BytesAt d off seg
+  seg4 : seg.length = 4
+  wsok : es.map (·.n) = kd.ws
 
 mutual
 /-- the objects of a node are in the pool as declared; `dk`: the contents of scope blocks are connected, `dn`: the node
 itself is -/
 def NodeOK (d : Bytes) (t : ObjectTree) (h : Nat) (dk dn : Bool) : Nat → Node → Prop
-  | p, .name x c k off q => NameT d t h p x c k off q dn
-  | p, .dev x c sb off _ seg kids => DevT d t h p x c sb off seg dn ∧ K t sb = tops dk kids ∧ NodesOK d t h dk sb kids
+  | p, .name x c k off seg dv => NameT d t h p x c k off seg dv dn
+  | p, .dev kd x c sb off _ seg es kids => DevT d t h p kd x c sb off seg es dn ∧ K t sb = tops dk kids ∧ NodesOK d t h dk sb kids
+  | p, .leaf kd x c off seg es => LeafT d t h p kd x c off seg es dn
 def NodesOK (d : Bytes) (t : ObjectTree) (h : Nat) (dk : Bool) : Nat → List Node → Prop
   | _, [] => True
   | p, n :: ns => NodeOK d t h dk dk p n ∧ NodesOK d t h dk p ns
@@ -629,12 +1184,8 @@ end
 
 /-! ## frames -/
 
-/-- `y` is in the pool `t'` what it is in the pool `t` -/
-def SameAt (t t' : ObjectTree) (y : Nat) : Prop :=
-  live t' y = live t y ∧ Pay (slot t' y) = Pay (slot t y) ∧ C13.P t' y = C13.P t y ∧ K t' y = K t y
-
-theorem NameT.frame {d : Bytes} {t t' : ObjectTree} {h p x c k off : Nat} {q : Decl} {b : Bool} (io : NameT d t h p x c k off q b)
-    (hx : SameAt t t' x) (hc : SameAt t t' c) (hk : SameAt t t' k) : NameT d t' h p x c k off q b := by
+theorem NameT.frame {d : Bytes} {t t' : ObjectTree} {h p x c k off : Nat} {seg : List UInt8} {dv : DVal} {b : Bool} (io : NameT d t h p x c k off seg dv b)
+    (hx : SameAt t t' x) (hc : SameAt t t' c) (hk : SameAt t t' k) : NameT d t' h p x c k off seg dv b := by
   obtain ⟨x1, x2, x3, x4⟩ := hx
   obtain ⟨c1, c2, c3, c4⟩ := hc
   obtain ⟨k1, k2, k3, k4⟩ := hk
@@ -643,14 +1194,15 @@ theorem NameT.frame {d : Bytes} {t t' : ObjectTree} {h p x c k off : Nat} {q : D
     by rw [pay_opcode c2]; exact io.opc, by rw [pay_info c2]; exact io.infc, by rw [pay_handle c2]; exact io.thc,
     by rw [pay_value c2]; exact io.valc,
     by rw [pay_opcode k2]; exact io.opk, by rw [pay_info k2]; exact io.infk, by rw [pay_handle k2]; exact io.thk,
-    io.int.of_pay k2, by rw [x4]; exact io.kx, by rw [c4]; exact io.kc, by rw [k4]; exact io.kk,
+    io.dat.of_pay k2, by rw [x4]; exact io.kx, by rw [c4]; exact io.kc, by rw [k4]; exact io.kk,
     by rw [x3]; exact io.px, by rw [c3]; exact io.pc, by rw [k3]; exact io.pk,
     fun hd => by rw [pay_name x2]; exact io.nm hd, io.bytes, io.seg4⟩
 
-theorem DevT.frame {d : Bytes} {t t' : ObjectTree} {h p x c sb off : Nat} {seg : List UInt8} {b : Bool}
-    (io : DevT d t h p x c sb off seg b) (hx : SameAt t t' x) (hc : SameAt t t' c)
-    (hsb : live t' sb = live t sb ∧ Pay (slot t' sb) = Pay (slot t sb) ∧ C13.P t' sb = C13.P t sb) :
-    DevT d t' h p x c sb off seg b := by
+theorem DevT.frame {d : Bytes} {t t' : ObjectTree} {h p : Nat} {kd : BKind} {x c sb off : Nat} {seg : List UInt8} {es : List CArg}
+    {b : Bool} (io : DevT d t h p kd x c sb off seg es b) (hx : SameAt t t' x) (hc : SameAt t t' c)
+    (hsb : live t' sb = live t sb ∧ Pay (slot t' sb) = Pay (slot t sb) ∧ C13.P t' sb = C13.P t sb)
+    (he : ∀ a ∈ es, SameAt t t' a.e) :
+    DevT d t' h p kd x c sb off seg es b := by
   obtain ⟨x1, x2, x3, x4⟩ := hx
   obtain ⟨c1, c2, c3, c4⟩ := hc
   obtain ⟨k1, k2, k3⟩ := hsb
@@ -661,20 +1213,40 @@ theorem DevT.frame {d : Bytes} {t t' : ObjectTree} {h p x c sb off : Nat} {seg :
     by rw [pay_opcode k2]; exact io.opsb, by rw [pay_info k2]; exact io.infsb, by rw [pay_handle k2]; exact io.thsb,
     by rw [x4]; exact io.kx, by rw [c4]; exact io.kc,
     by rw [x3]; exact io.px, by rw [c3]; exact io.pc, by rw [k3]; exact io.psb,
+    fun a ha => (io.args a ha).frame (he a ha), io.wsok,
     fun hd => by rw [pay_name x2]; exact io.nm hd, io.bytes, io.seg4⟩
+
+theorem LeafT.frame {d : Bytes} {t t' : ObjectTree} {h p : Nat} {kd : LKind} {x c off : Nat} {seg : List UInt8} {es : List CArg}
+    {b : Bool} (io : LeafT d t h p kd x c off seg es b) (hx : SameAt t t' x) (hc : SameAt t t' c)
+    (he : ∀ a ∈ es, SameAt t t' a.e) : LeafT d t' h p kd x c off seg es b := by
+  obtain ⟨x1, x2, x3, x4⟩ := hx
+  obtain ⟨c1, c2, c3, c4⟩ := hc
+  exact ⟨by rw [x1]; exact io.lx, by rw [c1]; exact io.lc,
+    by rw [pay_opcode x2]; exact io.opx, by rw [pay_info x2]; exact io.infx, by rw [pay_handle x2]; exact io.thx,
+    by rw [pay_opcode c2]; exact io.opc, by rw [pay_info c2]; exact io.infc, by rw [pay_handle c2]; exact io.thc,
+    by rw [pay_value c2]; exact io.valc, by rw [x4]; exact io.kx, by rw [c4]; exact io.kc,
+    by rw [x3]; exact io.px, by rw [c3]; exact io.pc, fun a ha => (io.args a ha).frame (he a ha),
+    fun hd => by rw [pay_name x2]; exact io.nm hd, io.bytes, io.seg4, io.wsok⟩
 
 mutual
 theorem NodeOK.frame {d : Bytes} {t t' : ObjectTree} {h : Nat} {dk dn : Bool} :
     ∀ (p : Nat) (n : Node), NodeOK d t h dk dn p n → (∀ y ∈ n.objs, SameAt t t' y) → NodeOK d t' h dk dn p n
-  | p, .name x c k off q, ok, hf => by
+  | p, .name x c k off seg dv, ok, hf => by
     unfold NodeOK at ok ⊢
     exact ok.frame (hf x (by simp [Node.objs])) (hf c (by simp [Node.objs])) (hf k (by simp [Node.objs]))
-  | p, .dev x c sb off pw seg kids, ok, hf => by
+  | p, .dev kd x c sb off pw seg es kids, ok, hf => by
     unfold NodeOK at ok ⊢
     obtain ⟨o1, o2, o3⟩ := ok
     have hsb := hf sb (by simp [Node.objs])
-    refine ⟨o1.frame (hf x (by simp [Node.objs])) (hf c (by simp [Node.objs])) ⟨hsb.1, hsb.2.1, hsb.2.2.1⟩, by rw [hsb.2.2.2]; exact o2,
+    refine ⟨o1.frame (hf x (by simp [Node.objs])) (hf c (by simp [Node.objs])) ⟨hsb.1, hsb.2.1, hsb.2.2.1⟩
+        (fun a ha => hf a.e (by
+          simp only [Node.objs, List.mem_append, List.mem_cons, List.mem_map]
+          exact Or.inr (Or.inl ⟨a, ha, rfl⟩))), by rw [hsb.2.2.2]; exact o2,
       NodesOK.frame sb kids o3 (fun y hy => hf y (by simp [Node.objs, hy]))⟩
+  | p, .leaf kd x c off seg es, ok, hf => by
+    unfold NodeOK at ok ⊢
+    exact ok.frame (hf x (by simp [Node.objs])) (hf c (by simp [Node.objs]))
+      (fun a ha => hf a.e (by simp only [Node.objs, List.mem_cons, List.mem_map]; exact Or.inr (Or.inr ⟨a, ha, rfl⟩)))
 theorem NodesOK.frame {d : Bytes} {t t' : ObjectTree} {h : Nat} {dk : Bool} :
     ∀ (p : Nat) (ns : List Node), NodesOK d t h dk p ns → (∀ y ∈ objsL ns, SameAt t t' y) → NodesOK d t' h dk p ns
   | _, [], _, _ => by unfold NodesOK; trivial
@@ -687,7 +1259,7 @@ end
 theorem NodesOK.live {d : Bytes} {t : ObjectTree} {h : Nat} {dk : Bool} :
     ∀ (p : Nat) (ns : List Node), NodesOK d t h dk p ns → ∀ y ∈ objsL ns, live t y = true
   | _, [], _, y, hy => by simp [objsL] at hy
-  | p, .name x c k off q :: ns, ok, y, hy => by
+  | p, .name x c k off seg dv :: ns, ok, y, hy => by
     unfold NodesOK NodeOK at ok
     simp only [objsL, Node.objs, List.mem_append, List.mem_cons, List.mem_nil_iff, or_false] at hy
     rcases hy with (e | e | e) | hy
@@ -695,14 +1267,23 @@ theorem NodesOK.live {d : Bytes} {t : ObjectTree} {h : Nat} {dk : Bool} :
     · rw [e]; exact ok.1.lc
     · rw [e]; exact ok.1.lk
     · exact NodesOK.live p ns ok.2 y hy
-  | p, .dev x c sb off pw seg kids :: ns, ok, y, hy => by
+  | p, .dev kd x c sb off pw seg es kids :: ns, ok, y, hy => by
     unfold NodesOK NodeOK at ok
-    simp only [objsL, Node.objs, List.mem_append, List.mem_cons, List.mem_nil_iff, or_false] at hy
-    rcases hy with ((e | e | e) | hy) | hy
+    simp only [objsL, Node.objs, List.mem_append, List.mem_cons, List.mem_nil_iff, or_false, List.mem_map] at hy
+    rcases hy with ((e | e | e) | ⟨a, ha, e⟩ | hy) | hy
     · rw [e]; exact ok.1.1.lx
     · rw [e]; exact ok.1.1.lc
     · rw [e]; exact ok.1.1.lsb
+    · rw [← e]; exact (ok.1.1.args a ha).le
     · exact NodesOK.live sb kids ok.1.2.2 y hy
+    · exact NodesOK.live p ns ok.2 y hy
+  | p, .leaf kd x c off seg es :: ns, ok, y, hy => by
+    unfold NodesOK NodeOK at ok
+    simp only [objsL, Node.objs, List.mem_append, List.mem_cons, List.mem_map] at hy
+    rcases hy with (e | e | ⟨a, ha, e⟩) | hy
+    · rw [e]; exact ok.1.lx
+    · rw [e]; exact ok.1.lc
+    · rw [← e]; exact (ok.1.args a ha).le
     · exact NodesOK.live p ns ok.2 y hy
 
 /-! ## the object loop with open packages -/
@@ -834,10 +1415,10 @@ theorem not_live_of {s s1 : PState} (h : ∀ y, live s.tree y = true → live s1
   | true => rw [h y hq] at hy; cases hy
 
 /-- a `Name` declaration, then the rest of the package -/
-theorem Built.consName {d : Bytes} {s s1 s2 s' : PState} {top base pe x c k off len : Nat} {q : Decl} {ns : List Node}
-    (cx : OCtx d s top base pe) (nd : NameDecl d s s1 x c off len) (hlen : len = 4) (cd : ConstDecl d s1 s2 k q.w q.v)
-    (hb : BytesAt d off (q.segs.headD [])) (hs4 : (q.segs.headD []).length = 4) (b : Built d s2 s' top pe ns) :
-    Built d s s' top pe (.name x c k off q :: ns) := by
+theorem Built.consName {d : Bytes} {s s1 s2 s' : PState} {top base pe x c k off len : Nat} {seg : List UInt8} {dv : DVal} {ns : List Node}
+    (cx : OCtx d s top base pe) (nd : NameDecl d s s1 x c off len) (hlen : len = 4) (cd : DataDecl d s1 s2 k dv)
+    (hb : BytesAt d off seg) (hs4 : seg.length = 4) (b : Built d s2 s' top pe ns) :
+    Built d s s' top pe (.name x c k off seg dv :: ns) := by
   have ht : topOf s = top := cx.topOf
   have ht1 : topOf s1 = top := by rw [topOf_rest nd.rest, ht]
   have topl := cx.topl
@@ -856,10 +1437,10 @@ theorem Built.consName {d : Bytes} {s s1 s2 s' : PState} {top base pe x c k off 
   have hth2 : s2.tableHandle = s.tableHandle := by rw [cd.rest.th, hth1]
   have px := cdo.pay _ nd.lx
   have pc := cdo.pay _ nd.lc
-  have nt2 : NameT d s2.tree s.tableHandle top x c k off q false :=
+  have nt2 : NameT d s2.tree s.tableHandle top x c k off seg dv false :=
     ⟨lx2, lc2, cd.lk, by rw [pay_opcode px]; exact nd.opx, by rw [pay_info px]; exact nd.infx, by rw [pay_handle px]; exact nd.thx,
       by rw [pay_opcode pc]; exact nd.opc, by rw [pay_info pc]; exact nd.infc, by rw [pay_handle pc]; exact nd.thc,
-      by rw [pay_value pc, nd.valc, hlen], cd.opk, cd.infk, by rw [cd.thk, hth1], cd.int,
+      by rw [pay_value pc, nd.valc, hlen], cd.opk, cd.infk, by rw [cd.thk, hth1], cd.dat,
       by rw [cdo.kids _ nd.lx, if_neg hxt]; exact nd.kx, by rw [cdo.kids _ nd.lc, if_neg hct]; exact nd.kc, cd.kk,
       by rw [cdo.par _ nd.lx, nd.px, ht], by rw [cdo.par _ nd.lc]; exact nd.pc, by rw [cd.pk, ht1]; rfl, fun hq => (by cases hq), hb, hs4⟩
   have hsc2 : s2.scopeStack = s.scopeStack := by rw [cd.rest.sc, nd.rest.sc]
@@ -908,10 +1489,10 @@ theorem Built.consName {d : Bytes} {s s1 s2 s' : PState} {top base pe x c k off 
     omega
 
 /-- a `Device`, its contents, then the rest of the package -/
-theorem Built.consDev {d : Bytes} {s s1 s2 s' : PState} {top base pe x c sb off pe1 pw : Nat} {seg : List UInt8}
-    {nsb nsr : List Node} (cx : OCtx d s top base pe) (dv : DevOpen d s s1 x c sb off pe1) (hb : BytesAt d off seg)
-    (hs4 : seg.length = 4) (bb : Built d s1 s2 sb pe1 nsb) (br : Built d s2 s' top pe nsr) :
-    Built d s s' top pe (.dev x c sb off pw seg nsb :: nsr) := by
+theorem Built.consDev {d : Bytes} {s s1 s2 s' : PState} {kd : BKind} {top base pe x c sb off pe1 pw : Nat} {seg : List UInt8}
+    {es : List CArg} {nsb nsr : List Node} (cx : OCtx d s top base pe) (dv : DevOpen d s s1 kd x c sb off pe1 es) (hb : BytesAt d off seg)
+    (hs4 : seg.length = 4) (hws : es.map (·.n) = kd.ws) (bb : Built d s1 s2 sb pe1 nsb) (br : Built d s2 s' top pe nsr) :
+    Built d s s' top pe (.dev kd x c sb off pw seg es nsb :: nsr) := by
   have ht : topOf s = top := cx.topOf
   have topl := cx.topl
   have dvo := dv.old
@@ -930,24 +1511,26 @@ theorem Built.consDev {d : Bytes} {s s1 s2 s' : PState} {top base pe x c sb off 
   have lsb2 : live s2.tree sb = true := bb.oldl _ dv.lsb
   have l02 : ∀ y, live s.tree y = true → live s2.tree y = true := fun y hy => bb.oldl _ (dvo.lv _ hy)
   -- the device in `s1`, then in `s2`
-  have dt1 : DevT d s1.tree s.tableHandle top x c sb off seg false :=
+  have dt1 : DevT d s1.tree s.tableHandle top kd x c sb off seg es false :=
     ⟨dv.lx, dv.lc, dv.lsb, dv.opx, dv.infx, dv.thx, dv.opc, dv.infc, dv.thc, dv.valc, dv.opsb, dv.infsb, dv.thsb, dv.kx, dv.kc,
-      by rw [dv.px, ht], dv.pc, dv.psb, fun hq => (by cases hq), hb, hs4⟩
+      by rw [dv.px, ht], dv.pc, dv.psb, dv.args, hws, fun hq => (by cases hq), hb, hs4⟩
   have dt2 := dt1.frame (bb.sameAt dv.lx hxsb) (bb.sameAt dv.lc hcsb)
     ⟨by rw [dv.lsb, lsb2], bb.oldpay _ dv.lsb, bb.oldpar _ dv.lsb⟩
+    (fun a ha => bb.sameAt (dv.args a ha).le (dv.hke a ha).2.2)
   have hksb2 : K s2.tree sb = tops false nsb := by rw [bb.ktop, dv.ksb]; rfl
   have ok2 : NodesOK d s2.tree s.tableHandle false sb nsb := by have := bb.ok; rw [dv.th] at this; exact this
   have livesb : ∀ y ∈ objsL nsb, live s2.tree y = true := NodesOK.live sb nsb ok2
   have newsb : ∀ y ∈ objsL nsb, live s.tree y = false := fun y hy => not_live_of dvo.lv (bb.new y hy)
-  have node2 : NodeOK d s2.tree s.tableHandle false false top (.dev x c sb off pw seg nsb) := by
+  have node2 : NodeOK d s2.tree s.tableHandle false false top (.dev kd x c sb off pw seg es nsb) := by
     unfold NodeOK; exact ⟨dt2, hksb2, ok2⟩
-  have hobjs : ∀ y ∈ (Node.dev x c sb off pw seg nsb).objs, live s2.tree y = true ∧ live s.tree y = false := by
+  have hobjs : ∀ y ∈ (Node.dev kd x c sb off pw seg es nsb).objs, live s2.tree y = true ∧ live s.tree y = false := by
     intro y hy
-    simp only [Node.objs, List.mem_append, List.mem_cons, List.mem_nil_iff, or_false] at hy
-    rcases hy with (e | e | e) | hy
+    simp only [Node.objs, List.mem_append, List.mem_cons, List.mem_nil_iff, or_false, List.mem_map] at hy
+    rcases hy with (e | e | e) | ⟨a, ha, e⟩ | hy
     · rw [e]; exact ⟨lx2, dv.nx⟩
     · rw [e]; exact ⟨lc2, dv.nc⟩
     · rw [e]; exact ⟨lsb2, dv.nsb⟩
+    · rw [← e]; exact ⟨bb.oldl _ (dv.args a ha).le, dv.newes a ha⟩
     · exact ⟨livesb y hy, newsb y hy⟩
   refine ⟨br.fp, by rw [br.sc, hsc2], by rw [br.pk, hpk2], by rw [br.r, hpk2], by rw [br.ab, bb.ab, dv.ab], by rw [br.th, hth2],
     ?_, ?_, fun y hy => br.oldl _ (l02 y hy), ?_, ?_, ?_, ?_, ?_, ?_⟩
@@ -977,14 +1560,28 @@ theorem Built.consDev {d : Bytes} {s s1 s2 s' : PState} {top base pe x c sb off 
     refine ⟨?_, br.nodup, ?_⟩
     · simp only [Node.objs]
       rw [List.nodup_append]
-      refine ⟨by simp [dv.xcsb.1, dv.xcsb.2.1, dv.xcsb.2.2], bb.nodup, ?_⟩
+      have hesb : ∀ a ∈ es, a.e ∉ objsL nsb := fun a ha hm => by
+        have := bb.new _ hm; rw [(dv.args a ha).le] at this; cases this
+      refine ⟨by simp [dv.xcsb.1, dv.xcsb.2.1, dv.xcsb.2.2], ?_, ?_⟩
+      · rw [List.nodup_append]
+        refine ⟨dv.nde, bb.nodup, ?_⟩
+        intro a ha b' hb' e
+        obtain ⟨a', ha', ea⟩ := List.mem_map.1 ha
+        exact hesb a' ha' (by rw [ea, e]; exact hb')
       intro a ha b' hb' e
-      have hbl := bb.new b' hb'
       simp only [List.mem_cons, List.mem_nil_iff, or_false] at ha
-      rcases ha with e' | e' | e' <;> rw [← e, e'] at hbl
-      · rw [dv.lx] at hbl; cases hbl
-      · rw [dv.lc] at hbl; cases hbl
-      · rw [dv.lsb] at hbl; cases hbl
+      rcases List.mem_append.1 hb' with hb' | hb'
+      · obtain ⟨a', ha', ea⟩ := List.mem_map.1 hb'
+        obtain ⟨k1, k2, k3⟩ := dv.hke a' ha'
+        rcases ha with e' | e' | e'
+        · exact k1 (by rw [ea, ← e, e'])
+        · exact k2 (by rw [ea, ← e, e'])
+        · exact k3 (by rw [ea, ← e, e'])
+      · have hbl := bb.new b' hb'
+        rcases ha with e' | e' | e' <;> rw [← e, e'] at hbl
+        · rw [dv.lx] at hbl; cases hbl
+        · rw [dv.lc] at hbl; cases hbl
+        · rw [dv.lsb] at hbl; cases hbl
     · intro a ha b' hb' e
       have h1 := (hobjs a ha).1
       have h2 := br.new b' hb'
@@ -992,6 +1589,64 @@ theorem Built.consDev {d : Bytes} {s s1 s2 s' : PState} {top base pe x c sb off 
   · have := br.size
     have := bb.size
     have := dv.size
+    have hel : es.length = kd.ws.length := by rw [← hws, List.length_map]
+    simp only [progs, Node.prog, sizePs, sizeP]
+    omega
+
+/-- an `Event` / `Mutex` declaration, then the rest of the package -/
+theorem Built.consLeaf {d : Bytes} {s s1 s' : PState} {kd : LKind} {top base pe x c off : Nat} {seg : List UInt8} {es : List CArg}
+    {ns : List Node} (cx : OCtx d s top base pe) (lo : LeafOpen d s s1 kd x c off es) (hb : BytesAt d off seg)
+    (hs4 : seg.length = 4) (hws : es.map (·.n) = kd.ws) (b : Built d s1 s' top pe ns) :
+    Built d s s' top pe (.leaf kd x c off seg es :: ns) := by
+  have ht : topOf s = top := cx.topOf
+  have topl := cx.topl
+  have loo := lo.old
+  rw [ht] at loo
+  have topl1 : live s1.tree top = true := loo.lv _ topl
+  have hxt : x ≠ top := fun e => by have := lo.nx; rw [e, topl] at this; cases this
+  have hct : c ≠ top := fun e => by have := lo.nc; rw [e, topl] at this; cases this
+  have het : ∀ a ∈ es, a.e ≠ top := fun a ha e => by have := lo.newes a ha; rw [e, topl] at this; cases this
+  have hel : kd.ws.length ≤ 1 := by cases kd <;> simp [LKind.ws]
+  have hesl : es.length ≤ 1 := by have := congrArg List.length hws; simp at this; omega
+  have lt1 : LeafT d s1.tree s.tableHandle top kd x c off seg es false :=
+    ⟨lo.lx, lo.lc, lo.opx, lo.infx, lo.thx, lo.opc, lo.infc, lo.thc, lo.valc, lo.kx, lo.kc, by rw [lo.px, ht], lo.pc, lo.args,
+      fun hq => (by cases hq), hb, hs4, hws⟩
+  refine ⟨b.fp, by rw [b.sc, lo.rest.sc], by rw [b.pk, lo.rest.pk], by rw [b.r, lo.rest.pk], by rw [b.ab, lo.rest.ab], by rw [b.th, lo.rest.th],
+    ?_, ?_, fun y hy => b.oldl _ (loo.lv y hy), ?_, ?_, ?_, ?_, ?_, ?_⟩
+  · rw [b.ktop, loo.kids _ topl, if_pos rfl]
+    simp [tops]
+  · unfold NodesOK NodeOK
+    refine ⟨lt1.frame (b.sameAt lo.lx hxt) (b.sameAt lo.lc hct) (fun a ha => b.sameAt (lo.args a ha).le (het a ha)), ?_⟩
+    have := b.ok
+    rw [lo.rest.th] at this
+    exact this
+  · intro y hy
+    rw [b.oldpay _ (loo.lv y hy), loo.pay _ hy]
+  · intro y hy
+    rw [b.oldpar _ (loo.lv y hy), loo.par _ hy]
+  · intro y hy hyt
+    rw [b.oldk _ (loo.lv y hy) hyt, loo.kids _ hy, if_neg hyt]
+  · intro y hy
+    simp only [objsL, Node.objs, List.mem_append, List.mem_cons, List.mem_map] at hy
+    rcases hy with (e | e | ⟨a, ha, e⟩) | hy
+    · rw [e]; exact lo.nx
+    · rw [e]; exact lo.nc
+    · rw [← e]; exact lo.newes a ha
+    · exact not_live_of loo.lv (b.new y hy)
+  · simp only [objsL, Node.objs]
+    rw [List.nodup_append]
+    refine ⟨lo.nd, b.nodup, ?_⟩
+    intro a ha b' hb' e
+    have hbl := b.new b' hb'
+    have hal : live s1.tree a = true := by
+      simp only [List.mem_cons, List.mem_map] at ha
+      rcases ha with e' | e' | ⟨q, hq, e'⟩
+      · rw [e']; exact lo.lx
+      · rw [e']; exact lo.lc
+      · rw [← e']; exact (lo.args q hq).le
+    rw [← e, hal] at hbl; cases hbl
+  · have := b.size
+    have := lo.size
     simp only [progs, Node.prog, sizePs, sizeP]
     omega
 
@@ -1027,82 +1682,86 @@ theorem ol_nest {d : Bytes} (hd : d.size + 1024 ≤ 4294967296) (fuel : Nat) :
     refine ⟨closed s, [], rfl, ?_, Built.nil cx⟩
     rw [bind_run (oli_eof fuel m' he), close_run cx]
     rfl
-  | .name q :: rest, s, m, N, top, base, pe, cx, hb, hlen, hok, hm, hfuel, hN, hsz => by
+  | .name seg dv :: rest, s, m, N, top, base, pe, cx, hb, hlen, hok, hm, hfuel, hN, hsz => by
     obtain ⟨m', rfl⟩ : ∃ m', m = m' + 2 := ⟨m - 2, by simp only [sizePs, sizeP] at hm; omega⟩
     obtain ⟨f, rfl⟩ : ∃ f, fuel = f + 5 := ⟨fuel - 5, by omega⟩
     simp only [okPs, okP] at hok
-    obtain ⟨⟨hq, hsim⟩, hokr⟩ := hok
+    obtain ⟨⟨hq, hs4, hdv⟩, hokr⟩ := hok
     simp only [encPs, encP] at hb hlen
     simp only [sizePs, sizeP] at hm hfuel hsz
     simp only [closesPs, closesP, Nat.zero_add] at hN ⊢
-    have hb1 : BytesAt d base q.enc := BytesAt.left hb
-    have hb2 : BytesAt d (base + q.enc.length) (encPs rest) := BytesAt.right hb
-    obtain ⟨hop, hb3⟩ := BytesAt.tail (show BytesAt d base (0x08 :: (encName q.root q.carets q.segs ++ encInt q.w q.v)) from hb1)
-    have hbn : BytesAt d (base + 1) (encName q.root q.carets q.segs) := BytesAt.left hb3
-    have hbi : BytesAt d (base + 1 + (encName q.root q.carets q.segs).length) (encInt q.w q.v) := BytesAt.right hb3
-    have hql : q.enc.length = 1 + (encName q.root q.carets q.segs).length + (encInt q.w q.v).length := by
-      simp [Decl.enc]; omega
+    have hen : encName false 0 [seg] = seg := by simp [encName]
+    have hb1 : BytesAt d base (0x08 :: (seg ++ dv.enc)) := BytesAt.left hb
+    have hb2 : BytesAt d (base + (0x08 :: (seg ++ dv.enc)).length) (encPs rest) := BytesAt.right hb
+    obtain ⟨hop, hb3⟩ := BytesAt.tail hb1
+    have hbn : BytesAt d (base + 1) seg := BytesAt.left hb3
+    have hbi : BytesAt d (base + 1 + seg.length) dv.enc := BytesAt.right hb3
+    have hql : (0x08 :: (seg ++ dv.enc)).length = 1 + seg.length + dv.enc.length := by
+      simp; omega
     rw [List.length_append] at hlen
-    have hip := encInt_pos q.w q.v
-    obtain ⟨s1, x, c, e1, nd, hr1⟩ := name_decl_k hd f cx.fp cx.sk cx.ne (by omega) q.root q.carets q.segs base pe cx.r cx.hpe hq.1 hop
-      hbn (by omega)
+    have hip := dv.enc_pos
+    obtain ⟨s1, x, c, e1, nd, hr1⟩ := name_decl_k hd f cx.fp cx.sk cx.ne (by omega) false 0 [seg] base pe cx.r cx.hpe hq hop
+      (by rw [hen]; exact hbn) (by rw [hen]; omega)
+    rw [hen] at hr1
     have hne1 : s1.scopeStack.size ≠ 0 := by rw [nd.rest.sc]; exact cx.ne
-    obtain ⟨s2, k, e2, cd, hr2⟩ := const_decl_first_pass (f + 2) nd.fp hne1 (by have := nd.size; omega) q.w q.v hq.2 _ pe hr1 cx.hpe
+    obtain ⟨s2, k, e2, cd, hr2⟩ := data_decl_first_pass (f + 2) nd.fp hne1 (by have := nd.size; omega) dv hdv _ pe hr1 cx.hpe
       hbi (by omega)
-    have hr2' : s2.r = { offset := base + q.enc.length, pkgEnd := pe } := by
+    have hr2' : s2.r = { offset := base + (0x08 :: (seg ++ dv.enc)).length, pkgEnd := pe } := by
       rw [hr2, hql]; congr 1; omega
     have hsc2 : s2.scopeStack = s.scopeStack := by rw [cd.rest.sc, nd.rest.sc]
     have hpk2 : s2.pkgEndStack = s.pkgEndStack := by rw [cd.rest.pk, nd.rest.pk]
-    have cx2 : OCtx d s2 top (base + q.enc.length) pe :=
+    have cx2 : OCtx d s2 top (base + (0x08 :: (seg ++ dv.enc)).length) pe :=
       ⟨cd.fp, by rw [cd.rest.ab, nd.rest.ab]; exact cx.sk, hr2', cx.hpe, by rw [hsc2]; exact cx.htop, by rw [hpk2]; exact cx.hpk,
         by rw [hsc2, hpk2]; exact cx.sz, by rw [hpk2]; exact cx.pkok⟩
-    obtain ⟨s', ns, hp, e', b'⟩ := ol_nest hd (f + 5) rest s2 m' N top (base + q.enc.length) pe cx2 hb2 (by omega) hokr (by omega)
+    obtain ⟨s', ns, hp, e', b'⟩ := ol_nest hd (f + 5) rest s2 m' N top (base + (0x08 :: (seg ++ dv.enc)).length) pe cx2 hb2 (by omega) hokr (by omega)
       (by omega) hN (by have := nd.size; have := cd.size; omega)
-    obtain ⟨e1s, e2s, e3s⟩ := simple_enc hsim
-    refine ⟨s', .name x c k (base + 1) q :: ns, by simp [progs, Node.prog, hp], ?_,
-      Built.consName cx nd (by rw [e1s, e2s, if_neg e3s]) cd (by rw [← e1s]; exact hbn) e2s b'⟩
+    refine ⟨s', .name x c k (base + 1) seg dv :: ns, by simp [progs, Node.prog, hp], ?_,
+      Built.consName cx nd (by rw [hen, hs4]; simp) cd hbn hs4 b'⟩
     have ne1 : s.r.eof = false := by rw [cx.r]; simp [Reader.eof]; omega
     have ne2 : s1.r.eof = false := by rw [hr1]; simp [Reader.eof]; omega
     rw [← e']
     apply bind_congr_run
     rw [oli_step (f + 5) (m' + 1) ne1 e1, oli_step (f + 5) m' ne2 e2]
-  | .dev pw seg body :: rest, s, m, N, top, base, pe, cx, hb, hlen, hok, hm, hfuel, hN, hsz => by
+  | .dev kd pw seg vals body :: rest, s, m, N, top, base, pe, cx, hb, hlen, hok, hm, hfuel, hN, hsz => by
     obtain ⟨m', rfl⟩ : ∃ m', m = m' + 1 := ⟨m - 1, by omega⟩
-    obtain ⟨f, rfl⟩ : ∃ f, fuel = f + 8 := ⟨fuel - 8, by omega⟩
-    simp only [okPs, okP] at hok
-    obtain ⟨⟨hpw1, hpw4, hv, hseg, hs4, hokb⟩, hokr⟩ := hok
-    simp only [encPs, encP] at hb hlen
+    have hwl := kd.ws_le
     simp only [sizePs, sizeP] at hm hfuel hsz
+    obtain ⟨f, rfl⟩ : ∃ f, fuel = f + kd.ws.length + 8 := ⟨fuel - kd.ws.length - 8, by omega⟩
+    simp only [okPs, okP] at hok
+    obtain ⟨⟨hpw1, hpw4, hv, hseg, hs4, hvl, hokb⟩, hokr⟩ := hok
+    simp only [encPs, encP] at hb hlen
     simp only [closesPs, closesP] at hN ⊢
     rw [hs4] at hb hlen hv
-    generalize hblen : (encPs body).length = blen at hb hlen hv
+    generalize hvlen : (encVals kd.ws vals).length = vlen at hb hlen hv
+    generalize hbl : (encPs body).length = bl at hb hlen hv
+    generalize hblen : vlen + bl = blen at hb hlen hv
     -- the bytes
-    have hbd : BytesAt d base ([0x5b, 0x82] ++ encPkgLength (pw + (4 + blen)) pw ++ (seg ++ encPs body)) := BytesAt.left hb
-    have hbr : BytesAt d (base + ([0x5b, 0x82] ++ encPkgLength (pw + (4 + blen)) pw ++ (seg ++ encPs body)).length) (encPs rest) :=
-      BytesAt.right hb
-    have hdl : ([0x5b, 0x82] ++ encPkgLength (pw + (4 + blen)) pw ++ (seg ++ encPs body)).length = 2 + pw + 4 + blen := by
-      simp only [List.length_append, List.length_cons, List.length_nil, encPkgLength_length _ _ hpw1, hs4, hblen]
+    have hbd : BytesAt d base ([0x5b, kd.b2] ++ encPkgLength (pw + (4 + blen)) pw ++ (seg ++ (encVals kd.ws vals ++ encPs body))) :=
+      BytesAt.left hb
+    have hbr : BytesAt d (base + ([0x5b, kd.b2] ++ encPkgLength (pw + (4 + blen)) pw ++ (seg ++ (encVals kd.ws vals ++ encPs body))).length)
+        (encPs rest) := BytesAt.right hb
+    have hdl : ([0x5b, kd.b2] ++ encPkgLength (pw + (4 + blen)) pw ++ (seg ++ (encVals kd.ws vals ++ encPs body))).length =
+        2 + pw + 4 + blen := by
+      simp only [List.length_append, List.length_cons, List.length_nil, encPkgLength_length _ _ hpw1, hs4, hvlen, hbl]
       omega
     rw [hdl] at hbr
     rw [List.length_append, hdl] at hlen
-    have hbh : BytesAt d base ([0x5b, 0x82] ++ encPkgLength (pw + (4 + blen)) pw ++ seg) := by
-      have : [0x5b, 0x82] ++ encPkgLength (pw + (4 + blen)) pw ++ (seg ++ encPs body) =
-          ([0x5b, 0x82] ++ encPkgLength (pw + (4 + blen)) pw ++ seg) ++ encPs body := by simp
-      rw [this] at hbd
-      exact BytesAt.left hbd
-    have hbb : BytesAt d (base + 2 + pw + 4) (encPs body) := by
-      have : [0x5b, 0x82] ++ encPkgLength (pw + (4 + blen)) pw ++ (seg ++ encPs body) =
-          ([0x5b, 0x82] ++ encPkgLength (pw + (4 + blen)) pw ++ seg) ++ encPs body := by simp
-      rw [this] at hbd
+    have hsplit : [0x5b, kd.b2] ++ encPkgLength (pw + (4 + blen)) pw ++ (seg ++ (encVals kd.ws vals ++ encPs body)) =
+        ([0x5b, kd.b2] ++ encPkgLength (pw + (4 + blen)) pw ++ seg ++ encVals kd.ws vals) ++ encPs body := by simp
+    rw [hsplit] at hbd
+    have hbh : BytesAt d base ([0x5b, kd.b2] ++ encPkgLength (pw + (4 + blen)) pw ++ seg ++ encVals kd.ws vals) := BytesAt.left hbd
+    have hbb : BytesAt d (base + 2 + pw + 4 + vlen) (encPs body) := by
       have := BytesAt.right hbd
-      simp only [List.length_append, List.length_cons, List.length_nil, encPkgLength_length _ _ hpw1, hs4] at this
-      have e : base + (0 + 1 + 1 + pw + 4) = base + 2 + pw + 4 := by omega
+      simp only [List.length_append, List.length_cons, List.length_nil, encPkgLength_length _ _ hpw1, hs4, hvlen] at this
+      have e : base + (0 + 1 + 1 + pw + 4 + vlen) = base + 2 + pw + 4 + vlen := by omega
       rw [e] at this
       exact this
-    obtain ⟨s1, x, c, sb, e1, dv, hr1⟩ := dev_open hd f cx.fp cx.sk cx.ne (by omega) pw seg blen base pe cx.r cx.hpe ⟨hpw1, hpw4⟩ hv hseg hs4
-      hbh (by omega)
+    obtain ⟨s1, x, c, sb, es, e1, dv, hm1, hm2, hr1⟩ := dev_open hd f kd cx.fp cx.sk cx.ne (by omega) pw seg vals blen base pe cx.r cx.hpe
+      ⟨hpw1, hpw4⟩ hv hseg hs4 hvl (by omega) hbh (by omega)
+    rw [hvlen] at hr1
+    have hesl : es.length = kd.ws.length := by rw [← hm1, List.length_map]
     have hpe1 : base + 2 + pw + 4 + blen ≤ d.size := by have := cx.hpe; omega
-    have cx1 : OCtx d s1 sb (base + 2 + pw + 4) (base + 2 + pw + 4 + blen) :=
+    have cx1 : OCtx d s1 sb (base + 2 + pw + 4 + vlen) (base + 2 + pw + 4 + blen) :=
       ⟨dv.fp, by rw [dv.ab]; exact cx.sk, hr1, hpe1, by rw [dv.sc]; simp, by rw [dv.pk]; simp,
         by rw [dv.sc, dv.pk, Array.size_push, Array.size_push, cx.sz], by
           intro e he
@@ -1111,8 +1770,8 @@ theorem ol_nest {d : Bytes} (hd : d.size + 1024 ≤ 4294967296) (fuel : Nat) :
           rcases he with he | he
           · exact cx.pkok e he
           · rw [he]; exact hpe1⟩
-    obtain ⟨s2, nsb, hpb, eb, bb⟩ := ol_nest hd (f + 8) body s1 m' N sb (base + 2 + pw + 4) (base + 2 + pw + 4 + blen) cx1 hbb
-      (by rw [hblen]) hokb (by omega) (by omega) (by omega) (by have := dv.size; omega)
+    obtain ⟨s2, nsb, hpb, eb, bb⟩ := ol_nest hd (f + kd.ws.length + 8) body s1 m' N sb (base + 2 + pw + 4 + vlen) (base + 2 + pw + 4 + blen)
+      cx1 hbb (by rw [hbl]; omega) hokb (by omega) (by omega) (by omega) (by have := dv.size; omega)
     -- back in the enclosing package
     have hsc2 : s2.scopeStack = s.scopeStack := by rw [bb.sc, dv.sc, Array.pop_push]
     have hpk2 : s2.pkgEndStack = s.pkgEndStack := by rw [bb.pk, dv.pk, Array.pop_push]
@@ -1122,23 +1781,53 @@ theorem ol_nest {d : Bytes} (hd : d.size + 1024 ≤ 4294967296) (fuel : Nat) :
       ⟨bb.fp, by rw [bb.ab, dv.ab]; exact cx.sk, hr2, cx.hpe, by rw [hsc2]; exact cx.htop, by rw [hpk2]; exact cx.hpk,
         by rw [hsc2, hpk2]; exact cx.sz, by rw [hpk2]; exact cx.pkok⟩
     obtain ⟨N2, hN2⟩ : ∃ N2, N - closesPs body = N2 + 1 := ⟨N - closesPs body - 1, by omega⟩
-    have hsize2 : s2.tree.pool.size ≤ s.tree.pool.size + 3 + 3 * sizePs body := by
+    have hsize2 : s2.tree.pool.size ≤ s.tree.pool.size + 3 + kd.ws.length + 3 * sizePs body := by
       have h1 := bb.size; have h2 := dv.size; rw [hpb] at h1; omega
-    obtain ⟨s', nsr, hpr, er, br⟩ := ol_nest hd (f + 8) rest s2 (f + 8) N2 top (base + 2 + pw + 4 + blen) pe cx2
+    obtain ⟨s', nsr, hpr, er, br⟩ := ol_nest hd (f + kd.ws.length + 8) rest s2 (f + kd.ws.length + 8) N2 top (base + 2 + pw + 4 + blen) pe cx2
       (by have e : base + (2 + pw + 4 + blen) = base + 2 + pw + 4 + blen := by omega
           rw [e] at hbr; exact hbr) (by omega) hokr (by omega) (by omega) (by omega) (by omega)
-    refine ⟨s', .dev x c sb (base + 2 + pw) pw seg nsb :: nsr, by simp [progs, Node.prog, hpb, hpr], ?_,
+    refine ⟨s', .dev kd x c sb (base + 2 + pw) pw seg es nsb :: nsr, by simp [progs, Node.prog, hpb, hpr, hm2], ?_,
       Built.consDev cx dv (by
-        have := BytesAt.right hbh
+        have := BytesAt.right (BytesAt.left hbh)
         simp only [List.length_append, List.length_cons, List.length_nil, encPkgLength_length _ _ hpw1] at this
         have e : base + (0 + 1 + 1 + pw) = base + 2 + pw := by omega
-        rw [e] at this; exact this) hs4 bb br⟩
+        rw [e] at this; exact this) hs4 hm1 bb br⟩
     have ne1 : s.r.eof = false := by rw [cx.r]; simp [Reader.eof]; omega
     have e3 : N - (1 + closesPs body + closesPs rest) = N2 - closesPs rest := by omega
-    rw [e3, ← er, ← pol_unfold d (f + 8) N2 s2 (by rw [hsc2]; exact cx.ne), ← hN2, ← eb]
+    rw [e3, ← er, ← pol_unfold d (f + kd.ws.length + 8) N2 s2 (by rw [hsc2]; exact cx.ne), ← hN2, ← eb]
     apply bind_congr_run
-    rw [oli_step (f + 8) m' ne1 e1]
-
+    rw [oli_step (f + kd.ws.length + 8) m' ne1 e1]
+  | .leaf kd seg vals :: rest, s, m, N, top, base, pe, cx, hb, hlen, hok, hm, hfuel, hN, hsz => by
+    obtain ⟨m', rfl⟩ : ∃ m', m = m' + 1 := ⟨m - 1, by omega⟩
+    have hel : kd.ws.length ≤ 1 := by cases kd <;> simp [LKind.ws]
+    obtain ⟨f, rfl⟩ : ∃ f, fuel = f + kd.ws.length + 5 := ⟨fuel - kd.ws.length - 5, by omega⟩
+    simp only [okPs, okP] at hok
+    obtain ⟨⟨hseg, hs4, hvl⟩, hokr⟩ := hok
+    simp only [encPs, encP] at hb hlen
+    simp only [sizePs, sizeP] at hm hfuel hsz
+    simp only [closesPs, closesP, Nat.zero_add] at hN ⊢
+    have hb1 : BytesAt d base ([0x5b, kd.b2] ++ seg ++ encVals kd.ws vals) := BytesAt.left hb
+    have hb2 : BytesAt d (base + ([0x5b, kd.b2] ++ seg ++ encVals kd.ws vals).length) (encPs rest) := BytesAt.right hb
+    have hdl : ([0x5b, kd.b2] ++ seg ++ encVals kd.ws vals).length = 2 + 4 + (encVals kd.ws vals).length := by
+      simp only [List.length_append, List.length_cons, List.length_nil, hs4]
+    rw [hdl] at hb2
+    rw [List.length_append, hdl] at hlen
+    obtain ⟨s1, x, c, es, e1, lo, hm1, hm2, hr1⟩ := leaf_open hd f kd cx.fp cx.ne (by omega) seg vals base pe cx.r cx.hpe hseg hs4 hvl
+      hb1 (by omega)
+    have hbseg : BytesAt d (base + 2) seg := by
+      have := BytesAt.right (BytesAt.left hb1); simpa using this
+    have cx1 : OCtx d s1 top (base + 2 + 4 + (encVals kd.ws vals).length) pe :=
+      ⟨lo.fp, by rw [lo.rest.ab]; exact cx.sk, hr1, cx.hpe, by rw [lo.rest.sc]; exact cx.htop, by rw [lo.rest.pk]; exact cx.hpk,
+        by rw [lo.rest.sc, lo.rest.pk]; exact cx.sz, by rw [lo.rest.pk]; exact cx.pkok⟩
+    have hesl : es.length ≤ 1 := by have := congrArg List.length hm1; simp at this; omega
+    obtain ⟨s', ns, hp, e', b'⟩ := ol_nest hd (f + kd.ws.length + 5) rest s1 m' N top (base + 2 + 4 + (encVals kd.ws vals).length) pe cx1
+      (by have e : base + (2 + 4 + (encVals kd.ws vals).length) = base + 2 + 4 + (encVals kd.ws vals).length := by omega
+          rw [e] at hb2; exact hb2) (by omega) hokr (by omega) (by omega) hN (by have := lo.size; omega)
+    refine ⟨s', .leaf kd x c (base + 2) seg es :: ns, by simp [progs, Node.prog, hp, hm2], ?_, Built.consLeaf cx lo hbseg hs4 hm1 b'⟩
+    have ne1 : s.r.eof = false := by rw [cx.r]; simp [Reader.eof]; omega
+    rw [← e']
+    apply bind_congr_run
+    rw [oli_step (f + kd.ws.length + 5) m' ne1 e1]
 
 /-- **the first pass on a nested program** (`Device(NAME){…}` around `Name(NAME, integer)`, any depth): it succeeds, and
 every declaration is in the pool as the layout `ns` says, under the root -/
